@@ -55,7 +55,7 @@ Definition call_sim (fuel : nat) : Prop :=
     | EVal v s' => exists fuel' g2 b' w,
           run_fn fuel' prog loc ws cb g1 = RDone (Some w) g2 /\ bext b b' s g1 /\ heap_ok b' s' g2 /\ vrel b' r v w /\
           frames g2 = frames g1 /\ out g2 = rout s' /\ keep b g1 g2 /\ lens s s' g1 g2
-    | ENoVal s' => exists fuel' g2 b',
+    | ENoVal s' => r = KN /\ exists fuel' g2 b',
           run_fn fuel' prog loc ws cb g1 = RDone None g2 /\ bext b b' s g1 /\ heap_ok b' s' g2 /\
           frames g2 = frames g1 /\ out g2 = rout s' /\ keep b g1 g2 /\ lens s s' g1 g2
     | EFail fl s' => fail_post fl (exists fuel' e g2,
@@ -70,12 +70,13 @@ Variable code : list instr.
 Variable cb : option (list (str * N)).
 Variable CD : kctx.
 Variable base : list frame.
+Variable SF : sfk.
 Variable c0 : nat.
 Hypothesis Hsmall : small (c0 + 2 * length code + 8).
 Variable FU : nat.
 Hypothesis Hcall : forall fuel', fuel' < FU -> call_sim fuel'.
 
-Local Notation ClA := (Cl path prog cb CD base).
+Local Notation ClA := (Cl path prog cb CD base name SF).
 
 (* expression code leaves the user names and the registers below d alone *)
 Definition fkeep (d : nat) (g g' : gstate) : Prop :=
@@ -106,7 +107,7 @@ Definition eres_ok (b : cinj) (B : kctx) (env : fenv) (s : rstate) (d fin : nat)
   match r with
   | EVal v s' => exists a' g' b' w, xrun prog name code a g a' g' /\ a_ip a' = fin /\ a_ops a' = [w] /\
         bext b b' s g /\ ClA b' B env s' g' /\ vrel b' k v w /\ rest b d s s' a g a' g'
-  | ENoVal s' => exists a' g' b', xrun prog name code a g a' g' /\ a_ip a' = fin /\ a_ops a' = [] /\
+  | ENoVal s' => k = KN /\ exists a' g' b', xrun prog name code a g a' g' /\ a_ip a' = fin /\ a_ops a' = [] /\
         bext b b' s g /\ ClA b' B env s' g' /\ rest b d s s' a g a' g'
   | EFail f s' => fail_post f (exists e0 g', xfail prog name code a g e0 g' /\ err_rel_s f e0 /\ out g' = rout s')
   | EFuel => True
@@ -116,7 +117,7 @@ Definition eres_ok (b : cinj) (B : kctx) (env : fenv) (s : rstate) (d fin : nat)
 Lemma Cl_ext : forall b B env s g g' d lo hi, ClA b B env s g -> ExprSim.ext d lo hi g g' -> frames_nd (frames g') ->
   ClA b B env s g'.
 Proof.
-  intros b B env s g g' d lo hi [H1 H2 H3 H4 H5 H6 H7 H8] He Hnd'.
+  intros b B env s g g' d lo hi [H1 H2 H3 H4 H5 H6 H7 H8 H9 H10] He Hnd'.
   destruct (ext_cells _ _ _ _ _ He) as [extra Ec].
   pose proof (ext_labs _ _ _ _ _ He) as Hl. pose proof (ext_tail _ _ _ _ _ He) as Ht.
   pose proof (ext_find _ _ _ _ _ He) as Hf. pose proof (ext_out _ _ _ _ _ He) as Hout.
@@ -134,6 +135,7 @@ Proof.
   - intros x k E. destruct (H3 x k E) as (Hx & c & c' & A1 & A2 & A3). split; [exact Hx|]. exists c, c'.
     split; [exact A1|]. split; [|exact A3]. cbn [frames] in *. rewrite (Hfind x Hx). exact A2.
   - destruct (locals env) as [|sc l]; [destruct (Rfr2_ne _ _ _ H2); congruence|exact H6].
+  - rewrite <- H9. apply cf_top. exact Hl.
 Qed.
 
 Lemma Cl_trc : forall b B env s g nm a i, ClA b B env s g -> ClA b B env s (trc nm a g i).
@@ -158,19 +160,19 @@ Lemma var_cell : forall b B env s g x k, ClA b B env s g -> bound2 B env -> kvar
      (forall a, a_cb a = cb -> lookup_var a g x = Some c') /\ b c c' k /\ sget s c = Some v /\ cell_get g c' = Some w /\ vrel b k v w.
 Proof.
   intros b B env s g x k H Hb Hk. unfold kvar in Hk. destruct (assoc x B) as [k1|] eqn:EB.
-  - inversion Hk; subst k1. destruct (cl_B _ _ _ _ _ _ _ _ _ _ H x k EB) as (Hx & c & c' & A1 & A2 & A3). split; [exact Hx|].
-    destruct (proj1 (cl_heap _ _ _ _ _ _ _ _ _ _ H) _ _ _ A3) as (v & w & E1 & E2 & E3).
+  - inversion Hk; subst k1. destruct (cl_B _ _ _ _ _ _ _ _ _ _ _ _ H x k EB) as (Hx & c & c' & A1 & A2 & A3). split; [exact Hx|].
+    destruct (proj1 (cl_heap _ _ _ _ _ _ _ _ _ _ _ _ H) _ _ _ A3) as (v & w & E1 & E2 & E3).
     exists c, c', v, w. split; [now apply lookup_app_some|]. split; [now apply lookup_app_some|].
     split; [intros a _; unfold lookup_var; now rewrite A2|]. auto.
-  - destruct (cl_cap _ _ _ _ _ _ _ _ _ _ H x k Hk) as (Hx & c & c' & A1 & A2 & A3). split; [exact Hx|].
-    destruct (proj1 (cl_heap _ _ _ _ _ _ _ _ _ _ H) _ _ _ A3) as (v & w & E1 & E2 & E3).
+  - destruct (cl_cap _ _ _ _ _ _ _ _ _ _ _ _ H x k Hk) as (Hx & c & c' & A1 & A2 & A3). split; [exact Hx|].
+    destruct (proj1 (cl_heap _ _ _ _ _ _ _ _ _ _ _ _ H) _ _ _ A3) as (v & w & E1 & E2 & E3).
     assert (Hn : lookup_scopes x (locals env) = None).
     { destruct (lookup_scopes x (locals env)) eqn:E; [|reflexivity]. exfalso.
       assert (Hin : In x (map fst B)) by (apply (proj1 Hb); congruence).
       clear -EB Hin. induction B as [|[y ky] t IH]; [destruct Hin|]. cbn [assoc map fst In] in *.
       destruct (str_eqb y x) eqn:E; [discriminate|]. destruct Hin as [->|Hin]; [now rewrite str_eqb_refl in E|auto]. }
     assert (Hf : find_in_function x (frames g) = None).
-    { pose proof (Rfr2_look _ _ _ (cl_fr _ _ _ _ _ _ _ _ _ _ H) x Hx) as Hl. rewrite Hn in Hl.
+    { pose proof (Rfr2_look _ _ _ (cl_fr _ _ _ _ _ _ _ _ _ _ _ _ H) x Hx) as Hl. rewrite Hn in Hl.
       destruct (find_in_function x (frames g)); [contradiction|reflexivity]. }
     exists c, c', v, w. split; [rewrite lookup_app_split, Hn; exact A1|]. split.
     { rewrite lookup_app_split, Hn. cbn [lookup_scopes]. rewrite assoc_capsc, Hk, A1. reflexivity. }
@@ -183,20 +185,22 @@ Proof.
   rewrite lookup_app_split in Hl. destruct (lookup_scopes x (locals env)) as [c1|] eqn:E1.
   - inversion Hl; subst c1.
     assert (Hx : uname0 x) by (apply (proj2 Hb); apply (proj1 Hb); congruence).
-    pose proof (Rfr2_look _ _ _ (cl_fr _ _ _ _ _ _ _ _ _ _ H) x Hx) as Hk. rewrite E1 in Hk.
+    pose proof (Rfr2_look _ _ _ (cl_fr _ _ _ _ _ _ _ _ _ _ _ _ H) x Hx) as Hk. rewrite E1 in Hk.
     destruct (find_in_function x (frames g)) as [c'|] eqn:E2; [|contradiction]. destruct Hk as [k Hk].
-    destruct (proj1 (cl_heap _ _ _ _ _ _ _ _ _ _ H) _ _ _ Hk) as (v0 & w & A1 & A2 & A3). rewrite Hg in A1. inversion A1; subst v0.
-    exists c'. split; [unfold lookup_var; now rewrite E2|]. destruct k as [|pk r].
+    destruct (proj1 (cl_heap _ _ _ _ _ _ _ _ _ _ _ _ H) _ _ _ Hk) as (v0 & w & A1 & A2 & A3). rewrite Hg in A1. inversion A1; subst v0.
+    exists c'. split; [unfold lookup_var; now rewrite E2|]. destruct k as [|pk r|].
     + destruct A3 as [_ ->]. exact A2.
     + destruct A3 as (ps & body & cenv & loc & cb0 & -> & _). destruct Hfo.
+    + destruct A3 as [_ ->]. exact A2.
   - cbn [lookup_scopes] in Hl. rewrite assoc_capsc in Hl. destruct (assoc x CD) as [k|] eqn:Ek; [|discriminate].
-    destruct (cl_cap _ _ _ _ _ _ _ _ _ _ H x k Ek) as (Hx & c2 & c' & A1 & A2 & A3). rewrite A1 in Hl. inversion Hl; subst c2.
-    pose proof (Rfr2_look _ _ _ (cl_fr _ _ _ _ _ _ _ _ _ _ H) x Hx) as Hk. rewrite E1 in Hk.
+    destruct (cl_cap _ _ _ _ _ _ _ _ _ _ _ _ H x k Ek) as (Hx & c2 & c' & A1 & A2 & A3). rewrite A1 in Hl. inversion Hl; subst c2.
+    pose proof (Rfr2_look _ _ _ (cl_fr _ _ _ _ _ _ _ _ _ _ _ _ H) x Hx) as Hk. rewrite E1 in Hk.
     destruct (find_in_function x (frames g)) as [cz|] eqn:E2; [contradiction|].
-    destruct (proj1 (cl_heap _ _ _ _ _ _ _ _ _ _ H) _ _ _ A3) as (v0 & w & B1 & B2 & B3). rewrite Hg in B1. inversion B1; subst v0.
-    exists c'. split; [unfold lookup_var, load_cb; rewrite E2, Hacb; exact A2|]. destruct k as [|pk r].
+    destruct (proj1 (cl_heap _ _ _ _ _ _ _ _ _ _ _ _ H) _ _ _ A3) as (v0 & w & B1 & B2 & B3). rewrite Hg in B1. inversion B1; subst v0.
+    exists c'. split; [unfold lookup_var, load_cb; rewrite E2, Hacb; exact A2|]. destruct k as [|pk r|].
     + destruct B3 as [_ ->]. exact B2.
     + destruct B3 as (ps & body & cenv & loc & cb0 & -> & _). destruct Hfo.
+    + destruct B3 as [_ ->]. exact B2.
 Qed.
 
 Lemma ok_dexpr_parts : forall B e, ok_dexpr B CD e = true ->
@@ -204,7 +208,7 @@ Lemma ok_dexpr_parts : forall B e, ok_dexpr B CD e = true ->
 Proof.
   intros B e H. unfold ok_dexpr in H. rewrite !andb_true_iff in H. destruct H as [[Hp Hl] Hu]. split; [exact Hp|]. split; [exact Hl|].
   intros x Hx. rewrite forallb_forall in Hu. specialize (Hu x Hx). apply andb_true_iff in Hu as [H1 H2].
-  split; [exact (proj1 (src_nameb_ok x H1))|]. unfold is_KD in H2. destruct (kvar B CD x) as [[|? ?]|]; try discriminate. reflexivity.
+  split; [exact (proj1 (src_nameb_ok x H1))|]. unfold is_KD in H2. destruct (kvar B CD x) as [[|? ?|]|]; try discriminate. reflexivity.
 Qed.
 
 (* a call-free expression over data variables: ExprSim.sim_pure *)
@@ -234,17 +238,17 @@ Proof.
   { intros x Hx. destruct (Hvc x Hx) as (c & v & E1 & E2 & E3 & _). exists c, c, v. cbn [env0 envp locals captured]. auto. }
   destruct (eval_pure_congr e Hp fuel env0 s env s Hag) as [Hst0 Ecg]. rewrite Ecg.
   assert (Hsm : small (d + length (pcode d e) + 3)) by (eapply small_le; [|exact Hsmall]; lia).
-  assert (Hfr : frames g <> []) by exact (proj2 (Rfr2_ne _ _ _ (cl_fr _ _ _ _ _ _ _ _ _ _ HR))).
+  assert (Hfr : frames g <> []) by exact (proj2 (Rfr2_ne _ _ _ (cl_fr _ _ _ _ _ _ _ _ _ _ _ _ HR))).
   pose proof (sim_pure name code e Hp d fuel k a g env0 s Hl Hv Hsm Hc Hend Hip Hops Hfr (Cl_Renv b B env s a g HR Hb Hacb)) as H.
   destruct (eval fuel env0 e s) as [v s1|s1|f s1|]; cbn [sim_post res_to] in H |- *; [|contradiction| |exact Logic.I].
   - destruct H as (-> & Hfo & g' & R). split; [reflexivity|]. split; [exact Hfo|]. exists g'. split.
     + eapply run_ok_xrun. exact R.
     + split; [eapply Cl_ext; [exact HR|exact (proj2 R)|]|exact (proj2 R)].
-      eapply xreach_nd; [apply reaches_xreach_running; exact (proj1 R)|exact (cl_nd _ _ _ _ _ _ _ _ _ _ HR)].
+      eapply xreach_nd; [apply reaches_xreach_running; exact (proj1 R)|exact (cl_nd _ _ _ _ _ _ _ _ _ _ _ _ HR)].
   - destruct H as (-> & e0 & g' & R & Hr & He). split; [reflexivity|]. exists e0, g'. split; [|split].
     + now apply reaches_xfail.
     + exact Hr.
-    + rewrite (ext_out _ _ _ _ _ He). exact (cl_out _ _ _ _ _ _ _ _ _ _ HR).
+    + rewrite (ext_out _ _ _ _ _ He). exact (cl_out _ _ _ _ _ _ _ _ _ _ _ _ HR).
 Qed.
 
 (* ================================================================ progress of the activation *)
@@ -320,9 +324,9 @@ Lemma park2 : forall b B env s a1 g1 k1 d w, nth_error code k1 = Some (mkI OP_ST
 Proof.
   intros b B env s a1 g1 k1 d w Hi Hip Hops HC Hsd. subst k1.
   set (i1 := mkI OP_STORE_FAST [reg d]) in *.
-  destruct (Cl_bind_reg path prog cb CD base b B env s (trc name a1 g1 i1) (reg d) w (Cl_trc _ _ _ _ _ _ _ _ HC) (reg_not_uname0 d))
+  destruct (Cl_bind_reg path prog cb CD base name SF b B env s (trc name a1 g1 i1) (reg d) w (Cl_trc _ _ _ _ _ _ _ _ HC) (reg_not_uname0 d))
     as (f & fs & Ef & Hb). cbv zeta in Hb. destruct Hb as [Hb HC2].
-  match type of HC2 with Cl _ _ _ _ _ _ _ _ _ ?G => set (g2 := G) in * end.
+  match type of HC2 with Cl _ _ _ _ _ _ _ _ _ _ _ ?G => set (g2 := G) in * end.
   assert (Hv : N.to_nat (N.of_nat (length (cells (trc name a1 g1 i1)))) < length (cells g1) -> False) by (rewrite Nnat.Nat2N.id; cbn [trc add_trace cells]; lia).
   exists g2. split; [|split; [exact HC2|]].
   - split.
@@ -336,7 +340,7 @@ Proof.
       intros ->. apply Hy. exists d. split; [lia|]. split; [exact Hsd|reflexivity].
   - exists (N.of_nat (length (cells (trc name a1 g1 i1)))). split; [cbn [g2 frames find_in_function vars]; now rewrite assoc_set_same|].
     split; [unfold cell_get; cbn [g2 cells]; rewrite Nnat.Nat2N.id, nth_error_app2, Nat.sub_diag by lia; reflexivity|].
-    intros c k Hb0. destruct (heap_valid path prog _ _ _ _ _ _ (cl_heap _ _ _ _ _ _ _ _ _ _ HC) Hb0) as [_ Hc']. exact (Hv Hc').
+    intros c k Hb0. destruct (heap_valid path prog _ _ _ _ _ _ (cl_heap _ _ _ _ _ _ _ _ _ _ _ _ HC) Hb0) as [_ Hc']. exact (Hv Hc').
 Qed.
 
 (* load_fast #d : push the parked value *)
@@ -352,7 +356,7 @@ Qed.
 (* ================================================================ expressions *)
 Definition espec (e : expr) : Prop :=
   forall b B d lr k0 fuel kp a g env s kd,
-    fuel <= FU -> kexpr B CD e = Some kd -> bound2 B env ->
+    fuel <= FU -> kexpr SF B CD e = Some kd -> bound2 B env ->
     installed (snd (ec path d lr k0 e)) ->
     d + length (fst (ec path d lr k0 e)) <= c0 + length code + 2 ->
     code_at code kp (fst (ec path d lr k0 e)) -> kp + length (fst (ec path d lr k0 e)) < length code ->
@@ -407,11 +411,20 @@ Lemma kfn_sound : forall B ps body G pk r, kfn B CD ps body = Some (G, pk, r) ->
 Proof.
   intros B ps body G pk r H. unfold kfn in H.
   destruct (capctx B CD (free_vars ps body)) as [G0|] eqn:EG; [|discriminate].
-  destruct (kblock (rev (combine ps (map (pkind body) ps))) G0 body) as [[B' rets]|] eqn:Eb; [|discriminate].
-  destruct (nodupb ps && forallb src_nameb ps && forallb (kind_eqb (hd KD rets)) rets) eqn:Ec; [|discriminate].
-  inversion H; subst G0 pk r. rewrite !andb_true_iff in Ec. destruct Ec as [[Hn Hs] Hr].
+  set (pk0 := map (pkind body) ps) in *. set (B0 := rev (combine ps pk0)) in *.
+  destruct (kblock (Some (pk0, KD)) B0 G0 body) as [[B1 rets0]|] eqn:Eb0; [|discriminate].
+  set (r0 := rkind body rets0) in *.
+  assert (Hx : exists B' rets, kblock (Some (pk0, r0)) B0 G0 body = Some (B', rets) /\
+                 (if nodupb ps && forallb src_nameb ps && forallb (kind_eqb r0) rets then Some (G0, pk0, r0) else None) = Some (G, pk, r)).
+  { destruct (kind_eqb r0 KD) eqn:Er.
+    - apply kind_eqb_eq in Er. rewrite Er in *. exists B1, rets0. split; [exact Eb0|exact H].
+    - destruct (kblock (Some (pk0, r0)) B0 G0 body) as [[B2 rets]|] eqn:Eb; [|discriminate]. exists B2, rets. split; [reflexivity|exact H]. }
+  destruct Hx as (B' & rets & Eb & Hc).
+  destruct (nodupb ps && forallb src_nameb ps && forallb (kind_eqb r0) rets) eqn:Ec; [|discriminate].
+  inversion Hc; subst G0 pk r. rewrite !andb_true_iff in Ec. destruct Ec as [[Hn Hs] Hr].
   destruct (capctx_spec B _ _ EG) as [A1 A2]. split; [|exact A2].
   split; [reflexivity|]. split; [now apply nodupb_sound2|]. split; [exact Hs|]. split; [exact A1|].
+  split; [unfold r0, rkind; destruct (last_ret body); [now right|now left]|].
   exists B', rets. split; [exact Eb|]. intros k Hk. rewrite forallb_forall in Hr. symmetry. apply kind_eqb_eq. exact (Hr k Hk).
 Qed.
 
@@ -439,7 +452,7 @@ Lemma exec_make_function : forall loc ns a g m, capture a g ns = Some m ->
 Proof. intros loc ns a g m H. unfold exec_d. destruct ns as [|n ns]; [reflexivity|]. now rewrite H. Qed.
 
 Lemma espec_fn : forall ps body b B d lr k0 fuel kp a g env s kd,
-  kexpr B CD (EFn ps body) = Some kd -> bound2 B env ->
+  kexpr SF B CD (EFn ps body) = Some kd -> bound2 B env ->
   installed (snd (ec path d lr k0 (EFn ps body))) ->
   code_at code kp (fst (ec path d lr k0 (EFn ps body))) -> kp + length (fst (ec path d lr k0 (EFn ps body))) < length code ->
   a_ip a = kp -> a_cb a = cb -> a_ops a = [] -> ClA b B env s g ->
@@ -508,7 +521,7 @@ Proof.
 Qed.
 
 Lemma args_sim : forall l, Forall espec l -> forall b B j lr k0 fuel kp a g env s ks acc,
-  fuel <= FU -> kargs B CD l = Some ks -> bound2 B env -> installed (snd (eargs path lr j k0 l)) ->
+  fuel <= FU -> kargs SF B CD l = Some ks -> bound2 B env -> installed (snd (eargs path lr j k0 l)) ->
   j + length (fst (fst (eargs path lr j k0 l))) <= c0 + length code + 2 ->
   code_at code kp (fst (fst (eargs path lr j k0 l))) -> kp + length (fst (fst (eargs path lr j k0 l))) < length code ->
   a_ip a = kp -> a_cb a = cb -> a_ops a = [] -> ClA b B env s g ->
@@ -519,8 +532,8 @@ Proof.
     rewrite app_nil_r, Nat.add_0_r. split; [reflexivity|]. split; [apply mid_refl|]. split; [exact Hip|]. split; [exact Hops|].
     split; [exact HC|]. split; [exact Logic.I|]. intros i w Hi. destruct i; discriminate.
   - pose proof (Forall_inv HF) as He0. pose proof (Forall_inv_tail HF) as Hl0.
-    cbn [kargs] in Hk. destruct (kexpr B CD e) as [kd|] eqn:Ee; [|discriminate].
-    destruct (kargs B CD l) as [ks'|] eqn:El; [|discriminate]. inversion Hk; subst ks.
+    cbn [kargs] in Hk. destruct (kexpr SF B CD e) as [kd|] eqn:Ee; [|discriminate].
+    destruct (kargs SF B CD l) as [ks'|] eqn:El; [|discriminate]. inversion Hk; subst ks.
     rewrite eargs_cons in *. destruct (ec path j lr k0 e) as [ca fa] eqn:Eec.
     destruct (eargs path lr (S j) (k0 + length fa) l) as [[ci cl] fl] eqn:Eea. cbn [fst snd] in *.
     rewrite !app_length in *. cbn [length] in *.
@@ -582,8 +595,8 @@ Proof.
   intros o ea eb IHa IHb b B d lr k0 fuel kp a g env s kd Hfu Hk Hb Hinst Hd Hc Hend Hip Hcb Hops HC.
   rewrite kexpr_eq in Hk. destruct (ok_dexpr B CD (EBin o ea eb)) eqn:Ho.
   { inversion Hk; subst kd. exact (espec_data _ b B d lr k0 fuel kp a g env s Ho Hb Hd Hc Hend Hip Hcb Hops HC). }
-  destruct (kexpr B CD ea) as [[|? ?]|] eqn:Ea; try discriminate.
-  destruct (kexpr B CD eb) as [[|? ?]|] eqn:Eb; try discriminate. inversion Hk; subst kd.
+  destruct (kexpr SF B CD ea) as [[|? ?|]|] eqn:Ea; try discriminate.
+  destruct (kexpr SF B CD eb) as [[|? ?|]|] eqn:Eb; try discriminate. inversion Hk; subst kd.
   destruct fuel as [|fuel]; [exact Logic.I|]. rewrite eval_EBin.
   rewrite ec_EBin in *. destruct (ec path (S d) lr k0 ea) as [ca fa] eqn:Eca.
   destruct (ec path (S d) lr (k0 + length fa) eb) as [cb2 fb] eqn:Ecb. cbn [fst snd] in *.
@@ -633,7 +646,7 @@ Proof.
       [|cbn [a5 a4 upd set_ip a_ip]; lia|reflexivity|do 3 apply Cl_trc; exact HC3|split; [exact Hfov|reflexivity]].
     eapply mid_trans; [exact M05|]. apply mid_same; try reflexivity; [exact Rop|repeat split].
   - destruct Hop as (-> & e0 & Hf & Hrel). apply fail_post_intro. exists e0, (trc name a5 g5 (op_instr o)).
-    split; [eapply mid_fail; [exact M05|exact Hf]|]. split; [now apply err_rel_s_of|exact (cl_out _ _ _ _ _ _ _ _ _ _ HC3)].
+    split; [eapply mid_fail; [exact M05|exact Hf]|]. split; [now apply err_rel_s_of|exact (cl_out _ _ _ _ _ _ _ _ _ _ _ _ HC3)].
 Qed.
 
 (* ---------------------------------------------------------------- a call through a variable *)
@@ -642,8 +655,8 @@ Proof.
   intros g0 l IHl b B d lr k0 fuel kp a g env s kd Hfu Hk Hb Hinst Hd Hc Hend Hip Hcb Hops HC.
   rewrite kexpr_eq in Hk. destruct (ok_dexpr B CD (ECall (EVar g0) l)) eqn:Ho; [apply ok_dexpr_pure in Ho; discriminate|].
   destruct (src_nameb g0) eqn:Hsn; [|discriminate].
-  destruct (kvar B CD g0) as [[|pk r]|] eqn:Eg; try discriminate.
-  destruct (kargs B CD l) as [ks|] eqn:El; [|discriminate].
+  destruct (kvar B CD g0) as [[|pk r|]|] eqn:Eg; try discriminate.
+  destruct (kargs SF B CD l) as [ks|] eqn:El; [|discriminate].
   destruct (kinds_eqb ks pk) eqn:Eks; [|discriminate]. apply kinds_eqb_eq in Eks. subst ks. inversion Hk; subst kd.
   destruct fuel as [|fuel]; [exact Logic.I|]. rewrite eval_ECall.
   rewrite ec_ECall in *. destruct (eargs path lr (S (S d)) k0 l) as [[ci cl] fl] eqn:Eea. cbn [fst snd] in *.
@@ -680,7 +693,7 @@ Proof.
   destruct (vrels_length _ _ _ _ Hvs) as [Hlv Hlw].
   assert (Hlk : length l = length pk).
   { clear -El. revert pk El. induction l as [|e l IH]; intros pk El; cbn [kargs] in El; [inversion El; reflexivity|].
-    destruct (kexpr B CD e); [|discriminate]. destruct (kargs B CD l) as [ks|]; [|discriminate]. inversion El. cbn [length]. now rewrite (IH ks). }
+    destruct (kexpr SF B CD e); [|discriminate]. destruct (kargs SF B CD l) as [ks|]; [|discriminate]. inversion El. cbn [length]. now rewrite (IH ks). }
   (* reload the arguments, then the callee *)
   destruct (loads_sim l ws (S (S d)) (S (kp + 1) + la) b2 (S (S d)) s2 a3 g3 ltac:(congruence) Hreg
               ltac:(atp Hcl) Hip3) as (g4 & M4 & Hf4 & Hc4 & Ho4).
@@ -709,7 +722,7 @@ Proof.
   assert (Hle12 : cinj_le b1 b2) by (unfold mid in M3; exact (proj1 (proj1 (proj2 M3)))).
   (* the callee *)
   pose proof (Hcall fuel ltac:(lia) b2 s2 g5t pk r ps body cenv loc cbf vs ws
-                (cl_heap _ _ _ _ _ _ _ _ _ _ HC5t) (cl_out _ _ _ _ _ _ _ _ _ _ HC5t) (cl_nd _ _ _ _ _ _ _ _ _ _ HC5t)
+                (cl_heap _ _ _ _ _ _ _ _ _ _ _ _ HC5t) (cl_out _ _ _ _ _ _ _ _ _ _ _ _ HC5t) (cl_nd _ _ _ _ _ _ _ _ _ _ _ _ HC5t)
                 (clos_ok_mono path prog _ _ _ _ _ _ _ _ _ Hle12 Hclos) Hvs) as Hcal.
   assert (Hact5 : act_same a5 (set_ops a5 []) /\ a_ss (set_ops a5 []) = a_ss a5) by (repeat split).
   destruct (call_clos_ fuel (RClos ps body cenv) vs s2) as [v s3|s3|flr s3|]; cbn [eres_ok]; [| | |exact Logic.I].
@@ -721,8 +734,8 @@ Proof.
     split; [eapply xr_call; [exact Hi4'|apply dec_call|exact Hx|exact Hrun|apply xr_refl]|].
     split; [exact He3|]. split; [now rewrite Hf6|]. split; [repeat split|]. split; [reflexivity|].
     split; [exact Hk6|]. split; [intros y _; now rewrite Hf6|exact Hl6].
-  - destruct Hcal as (fuel' & g6 & b3 & Hrun & He3 & Hh3 & Hf6 & Ho6 & Hk6 & Hl6).
-    exists (next_act (set_ops a5 []) None), g6, b3.
+  - destruct Hcal as (Hrn & fuel' & g6 & b3 & Hrun & He3 & Hh3 & Hf6 & Ho6 & Hk6 & Hl6).
+    split; [exact Hrn|]. exists (next_act (set_ops a5 []) None), g6, b3.
     assert (M6 : mid b2 d s2 a5 g5 b3 s3 (next_act (set_ops a5 []) None) g6).
     { unfold mid, rest.
       split; [eapply xr_call; [exact Hi4'|apply dec_call|exact Hx|exact Hrun|apply xr_refl]|].
@@ -736,11 +749,363 @@ Proof.
     exists i4, (DCall None), loc, cbf, ws, (set_ops a5 []), g5t, fuel'. auto using dec_call.
 Qed.
 
+(* ---------------------------------------------------------------- && , || , ! with operands that contain calls *)
+(* store_skip that does not skip: park the boolean in register d *)
+Lemma park_skip2 : forall b B env s a1 g1 k1 d (p : bool) n (bv : bool),
+  nth_error code k1 = Some (mkI OP_STORE_SKIP [reg d; if p then s_one else s_zero; sN n]) -> small n ->
+  (if p then bv else negb bv) = false ->
+  a_ip a1 = k1 -> a_ops a1 = [VBool bv] -> ClA b B env s g1 -> small d ->
+  exists g2, mid b d s a1 g1 b s (upd a1 (S k1) []) g2 /\ ClA b B env s g2 /\ rvk b g2 d (VBool bv).
+Proof.
+  intros b B env s a1 g1 k1 d p n bv Hi Hsn Hpb Hip Hops HC Hsd. subst k1.
+  set (i1 := mkI OP_STORE_SKIP [reg d; if p then s_one else s_zero; sN n]) in *.
+  set (w := VBool bv) in *.
+  destruct (Cl_bind_reg path prog cb CD base name SF b B env s (trc name a1 g1 i1) (reg d) w (Cl_trc _ _ _ _ _ _ _ _ HC) (reg_not_uname0 d))
+    as (f & fs & Ef & Hb). cbv zeta in Hb. destruct Hb as [Hb HC2].
+  match type of HC2 with Cl _ _ _ _ _ _ _ _ _ _ _ ?G => set (g2 := G) in * end.
+  assert (Hv : N.to_nat (N.of_nat (length (cells (trc name a1 g1 i1)))) < length (cells g1) -> False) by (rewrite Nnat.Nat2N.id; cbn [trc add_trace cells]; lia).
+  exists g2. split; [|split; [exact HC2|]].
+  - split.
+    + eapply (xstep_next prog name code a1 g1 i1 _ (a_ip a1) (set_ops a1 [])); [reflexivity|exact Hi|apply dec_store_skip; exact Hsn|].
+      rewrite (exec_store_skip (reg d) p (Z.of_nat n) a1 _ w Hops). unfold w at 1. rewrite Hpb. fold w. rewrite Hb. reflexivity.
+    + split; [apply bext_refl|]. split; [cbn [g2 frames tl]; change (frames g1) with (frames (trc name a1 g1 i1)); now rewrite Ef|].
+      split; [repeat split|]. split; [reflexivity|]. split; [apply (keep_cells_app _ _ _ [w]); reflexivity|].
+      split; [|split; [lia|cbn [g2 cells trc add_trace]; rewrite app_length; lia]].
+      intros y Hy. cbn [g2 frames]. change (frames g1) with (frames (trc name a1 g1 i1)). rewrite Ef.
+      cbn [find_in_function vars lab]. rewrite assoc_set_other; [reflexivity|].
+      intros ->. apply Hy. exists d. split; [lia|]. split; [exact Hsd|reflexivity].
+  - exists (N.of_nat (length (cells (trc name a1 g1 i1)))). split; [cbn [g2 frames find_in_function vars]; now rewrite assoc_set_same|].
+    split; [unfold cell_get; cbn [g2 cells]; rewrite Nnat.Nat2N.id, nth_error_app2, Nat.sub_diag by lia; reflexivity|].
+    intros c k Hb0. destruct (heap_valid path prog _ _ _ _ _ _ (cl_heap _ _ _ _ _ _ _ _ _ _ _ _ HC) Hb0) as [_ Hc']. exact (Hv Hc').
+Qed.
+
+(* an operand of kind "data" never yields "no value" *)
+Lemma eres_noval_KD : forall b B env s d fin a g s', eres_ok b B env s d fin a g KD (ENoVal s') -> False.
+Proof. intros b B env s d fin a g s' [H _]. discriminate H. Qed.
+
+(* the expression starts after the machine has made some progress *)
+Lemma eres_seq : forall b B env s d fin a g b1 s1 a1 g1 d' k r,
+  mid b d s a g b1 s1 a1 g1 -> d <= d' -> eres_ok b1 B env s1 d' fin a1 g1 k r -> eres_ok b B env s d fin a g k r.
+Proof.
+  intros b B env s d fin a g b1 s1 a1 g1 d' k r M Hle H. destruct r as [v s2|s2|f s2|]; cbn [eres_ok] in *; [| | |exact Logic.I].
+  - destruct H as (a' & g' & b' & w & R & Hip & Hops & E & HC & Hv & Hr).
+    assert (M2 : mid b1 d s1 a1 g1 b' s2 a' g') by (eapply mid_mono; [exact Hle|]; unfold mid; auto).
+    pose proof (mid_trans _ _ _ _ _ _ _ _ _ _ _ _ _ M M2) as M3. unfold mid in M3. destruct M3 as (R3 & E3 & Hr3).
+    exists a', g', b', w. auto 8.
+  - destruct H as (Hk & a' & g' & b' & R & Hip & Hops & E & HC & Hr). split; [exact Hk|].
+    assert (M2 : mid b1 d s1 a1 g1 b' s2 a' g') by (eapply mid_mono; [exact Hle|]; unfold mid; auto).
+    pose proof (mid_trans _ _ _ _ _ _ _ _ _ _ _ _ _ M M2) as M3. unfold mid in M3. destruct M3 as (R3 & E3 & Hr3).
+    exists a', g', b'. auto 8.
+  - eapply fail_post_map; [|exact H]. intros (e0 & g' & Hf & Hr). exists e0, g'. split; [eapply mid_fail; eassumption|exact Hr].
+Qed.
+
+(* and / or : the two share everything but the constant *)
+Lemma espec_logic : forall (p : bool) ea eb, espec ea -> espec eb -> espec (if p then EOr ea eb else EAnd ea eb).
+Proof.
+  intros p ea eb IHa IHb b B d lr k0 fuel kp a g env s kd Hfu Hk Hb Hinst Hd Hc Hend Hip Hcb Hops HC.
+  set (e := if p then EOr ea eb else EAnd ea eb) in *.
+  assert (Hkk : kexpr SF B CD e = if ok_dexpr B CD e then Some KD else
+                 match kexpr SF B CD ea, kexpr SF B CD eb with Some KD, Some KD => Some KD | _, _ => None end)
+    by (rewrite kexpr_eq; unfold e; destruct p; reflexivity).
+  rewrite Hkk in Hk. clear Hkk. destruct (ok_dexpr B CD e) eqn:Ho.
+  { inversion Hk; subst kd. exact (espec_data _ b B d lr k0 fuel kp a g env s Ho Hb Hd Hc Hend Hip Hcb Hops HC). }
+  destruct (kexpr SF B CD ea) as [[|? ?|]|] eqn:Ea; try discriminate.
+  destruct (kexpr SF B CD eb) as [[|? ?|]|] eqn:Eb; try discriminate. inversion Hk; subst kd.
+  destruct fuel as [|fuel]; [exact Logic.I|].
+  assert (Hcode : ec path d lr k0 e =
+     let '(ca, fa) := ec path (S d) lr k0 ea in
+     let '(cb2, fb) := ec path (S d) lr (k0 + length fa) eb in
+     (ca ++ [mkI OP_STORE_SKIP [reg d; if p then s_one else s_zero; sN (length cb2 + 3)]] ++ cb2
+         ++ [mkI OP_LOAD_FAST [reg d]; mkI OP_BIN_OP [if p then op_or else op_and]], fa ++ fb))
+    by (unfold e; destruct p; [apply ec_EOr|apply ec_EAnd]).
+  assert (Eev : eval (S fuel) env e s =
+                match eval fuel env ea s with
+                | EVal (RBool bv) s1 =>
+                  if (if p then bv else negb bv) then EVal (RBool bv) s1
+                  else match eval fuel env eb s1 with
+                       | EVal (RBool vb) s2 => EVal (RBool vb) s2
+                       | EVal _ s2 | ENoVal s2 => EFail (FType 6) s2 | r => r end
+                | EVal _ s1 | ENoVal s1 => EFail (FType 6) s1 | r => r end).
+  { unfold e. destruct p; [rewrite eval_EOr|rewrite eval_EAnd]; destruct (eval fuel env ea s) as [[?|[|]|?| |? ? ?] s1|s1|f s1|]; reflexivity. }
+  rewrite Eev. clear Eev. rewrite Hcode in Hinst, Hd, Hc, Hend |- *. clear Hcode Ho. clearbody e. clear e.
+  destruct (ec path (S d) lr k0 ea) as [ca fa] eqn:Eca.
+  destruct (ec path (S d) lr (k0 + length fa) eb) as [cb2 fb] eqn:Ecb. cbn [fst snd] in *.
+  rewrite !app_length in *. cbn [length] in *.
+  apply (installed_app prog) in Hinst as [Hin1 Hin2].
+  apply code_at_app in Hc as [Hca Hc]. apply code_at_cons in Hc as [Hi1 Hc].
+  apply code_at_app in Hc as [Hcb2 Hc]. apply code_at_cons in Hc as [Hi2 Hc]. apply code_at_cons in Hc as [Hi3 _].
+  set (la := length ca) in *. set (lb := length cb2) in *.
+  assert (Hsd : small d) by (eapply small_le; [|exact Hsmall]; lia).
+  assert (Hsk : small (lb + 3)) by (eapply small_le; [|exact Hsmall]; lia).
+  pose proof (IHa b B (S d) lr k0 fuel kp a g env s KD ltac:(lia) Ea Hb) as He. rewrite Eca in He. cbn [fst snd] in He.
+  specialize (He Hin1 ltac:(fold la; lia) Hca ltac:(fold la; lia) Hip Hcb Hops HC). fold la in He.
+  destruct (eval fuel env ea s) as [va s1|s1|f s1|]; [|exfalso; exact (eres_noval_KD _ _ _ _ _ _ _ _ _ He)|exact He|exact Logic.I].
+  apply eres_val_inv in He. destruct He as (a1 & g1 & b1 & wa & M1 & Hip1 & Hops1 & HC1 & [Hfoa ->]).
+  set (i1 := mkI OP_STORE_SKIP [reg d; if p then s_one else s_zero; sN (lb + 3)]) in *.
+  pose proof (dec_store_skip (reg d) p (lb + 3) Hsk) as Hd1.
+  pose proof (exec_store_skip (reg d) p (Z.of_nat (lb + 3)) a1 (trc name a1 g1 i1) (inj va) Hops1) as He1.
+  assert (Hfail6 : (forall bv, inj va <> VBool bv) ->
+            fail_post (FType 6) (exists e0 g', xfail prog name code a g e0 g' /\ err_rel_s (FType 6) e0 /\ out g' = rout s1)).
+  { intros Hv. apply fail_post_intro. exists E_not_bool, (trc name a1 g1 i1).
+    split; [|split; [cbn; auto|exact (cl_out _ _ _ _ _ _ _ _ _ _ _ _ HC1)]].
+    eapply mid_fail; [exact M1|]. eapply xstep_fail; [exact Hip1|exact Hi1|exact Hd1|].
+    rewrite He1. destruct (inj va); try reflexivity. exfalso. exact (Hv b0 eq_refl). }
+  destruct va as [z|bv|t| |p0 bd ev]; cbn [eres_ok]; try (apply Hfail6; intros b0; discriminate).
+  cbn [inj] in He1, Hops1.
+  destruct (if p then bv else negb bv) eqn:Epb.
+  { (* the left operand decides: jump over the right operand *)
+    apply (eres_val b B env s d _ a g KD (RBool bv) s1 (set_ip a1 (kp + (la + (1 + (lb + 2))))) (trc name a1 g1 i1) b1 (VBool bv));
+      [|reflexivity|exact Hops1|apply Cl_trc; exact HC1|split; [exact Hfoa|reflexivity]].
+    eapply mid_trans; [eapply mid_mono; [|exact M1]; lia|]. apply mid_same; try reflexivity; [|repeat split].
+    eapply (xstep_goto prog name code a1 g1 i1 _ (kp + la) _ a1); [exact Hip1|exact Hi1|exact Hd1|exact He1|].
+    rewrite Hip1. rewrite goto_fwd by lia. f_equal. lia. }
+  (* the left operand does not decide: park it, evaluate the right operand *)
+  destruct (park_skip2 b1 B env s1 a1 g1 (kp + la) d p (lb + 3) bv Hi1 Hsk Epb Hip1 Hops1 HC1 Hsd) as (g2 & M2 & HC2 & Hrv2).
+  set (a2 := upd a1 (S (kp + la)) []) in *.
+  assert (Hcb2' : a_cb a2 = cb).
+  { unfold mid, rest in M1. destruct M1 as (_ & _ & _ & (_ & _ & A3) & _). cbn [a2 upd set_ip set_ops a_cb]. congruence. }
+  pose proof (IHb b1 B (S d) lr (k0 + length fa) fuel (S (kp + la)) a2 g2 env s1 KD ltac:(lia) Eb Hb) as Hbr.
+  rewrite Ecb in Hbr. cbn [fst snd] in Hbr.
+  specialize (Hbr Hin2 ltac:(fold lb; lia) ltac:(atp Hcb2) ltac:(fold lb; lia) eq_refl Hcb2' eq_refl HC2). fold lb in Hbr.
+  destruct (eval fuel env eb s1) as [vb s2|s2|f s2|]; [|exfalso; exact (eres_noval_KD _ _ _ _ _ _ _ _ _ Hbr)| |exact Logic.I].
+  2:{ cbn [eres_ok] in Hbr |- *. eapply fail_post_map; [|exact Hbr]. intros (e0 & g' & Hf & Hr). exists e0, g'.
+      split; [eapply mid_fail; [exact M1|]; eapply mid_fail; [exact M2|exact Hf]|exact Hr]. }
+  apply eres_val_inv in Hbr. destruct Hbr as (a3 & g3 & b2 & wb & M3 & Hip3 & Hops3 & HC3 & [Hfob ->]).
+  assert (Hrv3 : rvk b2 g3 d (VBool bv)) by (eapply rvk_keep; [exact M3|exact Hrv2|lia|exact Hsd]).
+  pose proof (unpark2 b2 d s2 a3 g3 (S (kp + la) + lb) d (VBool bv) ltac:(atp Hi2) Hip3 Hrv3) as M4.
+  rewrite Hops3 in M4. cbn [app] in M4.
+  set (a4 := upd a3 (S (S (kp + la) + lb)) [inj vb; VBool bv]) in *.
+  set (g4 := trc name a3 g3 (mkI OP_LOAD_FAST [reg d])) in *.
+  set (i3 := mkI OP_BIN_OP [if p then op_or else op_and]) in *.
+  pose proof (exec_bin_op (if p then op_or else op_and) a4 (trc name a4 g4 i3) (inj vb) (VBool bv) eq_refl) as Hx.
+  assert (M04 : mid b d s a g b2 s2 a4 g4).
+  { eapply mid_trans; [eapply mid_mono; [|exact M1]; lia|]. eapply mid_trans; [exact M2|].
+    eapply mid_trans; [eapply mid_mono; [|exact M3]; lia|exact M4]. }
+  assert (Hi3' : nth_error code (a_ip a4) = Some i3) by (cbn [a4 upd set_ip a_ip]; atp Hi3).
+  assert (Hbsem : forall vv, inj vb = vv -> (forall b0, vv <> VBool b0) ->
+            exists e0, bin_op_sem (if p then op_or else op_and) vv (VBool bv) = OE e0 /\ err_rel (FType 6) e0).
+  { intros vv <- Hv. destruct p; destruct vb as [?|b0|?| |? ? ?]; cbn; try (eexists; split; [reflexivity|cbn; auto]); exfalso; exact (Hv b0 eq_refl). }
+  assert (Hfail6b : (forall b0, inj vb <> VBool b0) ->
+            fail_post (FType 6) (exists e0 g', xfail prog name code a g e0 g' /\ err_rel_s (FType 6) e0 /\ out g' = rout s2)).
+  { intros Hv. destruct (Hbsem _ eq_refl Hv) as (e0 & Hbo & Hrel). rewrite Hbo in Hx.
+    apply fail_post_intro. exists e0, (trc name a4 g4 i3). split; [|split; [now apply err_rel_s_of|exact (cl_out _ _ _ _ _ _ _ _ _ _ _ _ HC3)]].
+    eapply mid_fail; [exact M04|]. eapply xstep_fail; [reflexivity|exact Hi3'|apply dec_bin_op|exact Hx]. }
+  destruct vb as [z|b2v|t| |p0 bd ev]; cbn [eres_ok]; try (apply Hfail6b; intros b0; discriminate).
+  cbn [inj] in Hx.
+  assert (Hov : bin_op_sem (if p then op_or else op_and) (VBool b2v) (VBool bv) = OV (VBool b2v)).
+  { destruct p, bv, b2v; try discriminate Epb; reflexivity. }
+  rewrite Hov in Hx.
+  apply (eres_val b B env s d _ a g KD (RBool b2v) s2 (upd a4 (S (a_ip a4)) [VBool b2v]) (trc name a4 g4 i3) b2 (VBool b2v));
+    [|cbn [a4 upd set_ip a_ip]; lia|reflexivity|do 2 apply Cl_trc; exact HC3|split; [exact Hfob|reflexivity]].
+  eapply mid_trans; [exact M04|]. apply mid_same; try reflexivity; [|repeat split].
+  eapply (xstep_next prog name code a4 g4 i3 _ (a_ip a4) (set_ops a4 [VBool b2v])); [reflexivity|exact Hi3'|apply dec_bin_op|exact Hx].
+Qed.
+
+Lemma espec_not : forall ea, espec ea -> espec (ENot ea).
+Proof.
+  intros ea IHa b B d lr k0 fuel kp a g env s kd Hfu Hk Hb Hinst Hd Hc Hend Hip Hcb Hops HC.
+  rewrite kexpr_eq in Hk. destruct (ok_dexpr B CD (ENot ea)) eqn:Ho.
+  { inversion Hk; subst kd. exact (espec_data _ b B d lr k0 fuel kp a g env s Ho Hb Hd Hc Hend Hip Hcb Hops HC). }
+  destruct (kexpr SF B CD ea) as [[|? ?|]|] eqn:Ea; try discriminate. inversion Hk; subst kd.
+  destruct fuel as [|fuel]; [exact Logic.I|]. rewrite eval_ENot.
+  rewrite ec_ENot in *. destruct (ec path (S d) lr k0 ea) as [ca fa] eqn:Eca. cbn [fst snd] in *.
+  rewrite !app_length in *. cbn [length] in *.
+  apply code_at_app in Hc as [Hca Hc]. apply code_at_cons in Hc as [Hi1 _].
+  set (la := length ca) in *.
+  pose proof (IHa b B (S d) lr k0 fuel kp a g env s KD ltac:(lia) Ea Hb) as He. rewrite Eca in He. cbn [fst snd] in He.
+  specialize (He Hinst ltac:(fold la; lia) Hca ltac:(fold la; lia) Hip Hcb Hops HC). fold la in He.
+  destruct (eval fuel env ea s) as [va s1|s1|f s1|]; [|exfalso; exact (eres_noval_KD _ _ _ _ _ _ _ _ _ He)|exact He|exact Logic.I].
+  apply eres_val_inv in He. destruct He as (a1 & g1 & b1 & wa & M1 & Hip1 & Hops1 & HC1 & [Hfoa ->]).
+  set (i1 := mkI OP_NOT []) in *.
+  pose proof (exec_not a1 (trc name a1 g1 i1) (inj va) Hops1) as Hx.
+  assert (Hfail : (forall bv, inj va <> VBool bv) ->
+            fail_post (FType 7) (exists e0 g', xfail prog name code a g e0 g' /\ err_rel_s (FType 7) e0 /\ out g' = rout s1)).
+  { intros Hv. apply fail_post_intro. exists E_not_bool, (trc name a1 g1 i1).
+    split; [|split; [cbn; auto|exact (cl_out _ _ _ _ _ _ _ _ _ _ _ _ HC1)]].
+    eapply mid_fail; [exact M1|]. eapply xstep_fail; [exact Hip1|exact Hi1|apply dec_not|].
+    rewrite Hx. destruct (inj va); try reflexivity. exfalso. exact (Hv b0 eq_refl). }
+  destruct va as [z|bv|t| |p0 bd ev]; cbn [eres_ok]; try (apply Hfail; intros b0; discriminate).
+  cbn [inj] in Hx.
+  apply (eres_val b B env s d _ a g KD (RBool (negb bv)) s1 (upd a1 (S (a_ip a1)) [VBool (negb bv)]) (trc name a1 g1 i1) b1 (VBool (negb bv)));
+    [|cbn [upd set_ip a_ip]; lia|reflexivity|apply Cl_trc; exact HC1|split; [exact Logic.I|reflexivity]].
+  eapply mid_trans; [eapply mid_mono; [|exact M1]; lia|]. apply mid_same; try reflexivity; [|repeat split].
+  eapply (xstep_next prog name code a1 g1 i1 _ (a_ip a1) (set_ops a1 [VBool (negb bv)])); [reflexivity|rewrite Hip1; exact Hi1|apply dec_not|exact Hx].
+Qed.
+
+(* ---------------------------------------------------------------- (a) or b , get a : optionals whose operands contain calls *)
+Lemma inj_nil : forall v, first_order v -> inj v = VNil -> v = RNil.
+Proof. intros [z|bv|t| |p0 bd ev] Hfo H; try discriminate; try reflexivity; destruct Hfo. Qed.
+
+Lemma espec_nilor : forall ea eb, espec ea -> espec eb -> espec (ENilOr ea eb).
+Proof.
+  intros ea eb IHa IHb b B d lr k0 fuel kp a g env s kd Hfu Hk Hb Hinst Hd Hc Hend Hip Hcb Hops HC.
+  rewrite kexpr_eq in Hk. destruct (ok_dexpr B CD (ENilOr ea eb)) eqn:Ho.
+  { inversion Hk; subst kd. exact (espec_data _ b B d lr k0 fuel kp a g env s Ho Hb Hd Hc Hend Hip Hcb Hops HC). }
+  destruct (kexpr SF B CD ea) as [[|? ?|]|] eqn:Ea; try discriminate.
+  destruct (kexpr SF B CD eb) as [[|? ?|]|] eqn:Eb; try discriminate. inversion Hk; subst kd.
+  destruct fuel as [|fuel]; [exact Logic.I|]. rewrite eval_ENilOr.
+  rewrite ec_ENilOr in *. destruct (ec path (S d) lr k0 ea) as [ca fa] eqn:Eca.
+  destruct (ec path (S d) lr (k0 + length fa) eb) as [cb2 fb] eqn:Ecb. cbn [fst snd] in *.
+  rewrite !app_length in *. cbn [length] in *.
+  apply (installed_app prog) in Hinst as [Hin1 Hin2].
+  apply code_at_app in Hc as [Hca Hc]. apply code_at_cons in Hc as [Hi1 Hcb2].
+  set (la := length ca) in *. set (lb := length cb2) in *.
+  assert (Hsk : small (lb + 1)) by (eapply small_le; [|exact Hsmall]; lia).
+  pose proof (IHa b B (S d) lr k0 fuel kp a g env s KD ltac:(lia) Ea Hb) as He. rewrite Eca in He. cbn [fst snd] in He.
+  specialize (He Hin1 ltac:(fold la; lia) Hca ltac:(fold la; lia) Hip Hcb Hops HC). fold la in He.
+  destruct (eval fuel env ea s) as [va s1|s1|f s1|] eqn:Eea; [|exfalso; exact (eres_noval_KD _ _ _ _ _ _ _ _ _ He)|exact He|exact Logic.I].
+  apply eres_val_inv in He. destruct He as (a1 & g1 & b1 & wa & M1 & Hip1 & Hops1 & HC1 & [Hfoa ->]).
+  set (i1 := mkI OP_JMP_NOT_NIL [sN (lb + 1)]) in *.
+  pose proof (dec_jmp_not_nil (lb + 1) Hsk) as Hd1.
+  pose proof (exec_jmp_not_nil (Z.of_nat (lb + 1)) a1 (trc name a1 g1 i1) (inj va) Hops1) as Hx.
+  assert (Hnn : va <> RNil -> eres_ok b B env s d (kp + (la + (1 + lb))) a g KD (EVal va s1)).
+  { intros Hne.
+    assert (Hx' : exec_d (DJmpNotNil (Z.of_nat (lb + 1))) a1 (trc name a1 g1 i1) = SGoto (Z.of_nat (lb + 1)) a1 (trc name a1 g1 i1)).
+    { rewrite Hx. destruct (inj va) eqn:Ei; try reflexivity. exfalso. apply Hne. now apply inj_nil. }
+    apply (eres_val b B env s d _ a g KD va s1 (set_ip a1 (kp + (la + (1 + lb)))) (trc name a1 g1 i1) b1 (inj va));
+      [|reflexivity|exact Hops1|apply Cl_trc; exact HC1|split; [exact Hfoa|reflexivity]].
+    eapply mid_trans; [eapply mid_mono; [|exact M1]; lia|]. apply mid_same; try reflexivity; [|repeat split].
+    eapply (xstep_goto prog name code a1 g1 i1 _ (kp + la) _ a1); [exact Hip1|exact Hi1|exact Hd1|exact Hx'|].
+    rewrite Hip1. rewrite goto_fwd by lia. f_equal. lia. }
+  destruct va as [z|bv|t| |p0 bd ev]; try (apply Hnn; discriminate).
+  (* nil: pop it, evaluate the fallback *)
+  cbn [inj] in Hx.
+  set (a2 := upd a1 (S (kp + la)) []).
+  set (g2 := trc name a1 g1 i1).
+  assert (M2 : mid b1 d s1 a1 g1 b1 s1 a2 g2).
+  { apply mid_same; try reflexivity; [|repeat split].
+    unfold a2, upd. rewrite <- Hip1.
+    eapply (xstep_next prog name code a1 g1 i1 _ (a_ip a1) (set_ops a1 [])); [reflexivity|rewrite Hip1; exact Hi1|exact Hd1|exact Hx]. }
+  assert (Hcb2' : a_cb a2 = cb).
+  { unfold mid, rest in M1. destruct M1 as (_ & _ & _ & (_ & _ & A3) & _). cbn [a2 upd set_ip set_ops a_cb]. congruence. }
+  pose proof (IHb b1 B (S d) lr (k0 + length fa) fuel (S (kp + la)) a2 g2 env s1 KD ltac:(lia) Eb Hb) as Hbr.
+  rewrite Ecb in Hbr. cbn [fst snd] in Hbr.
+  specialize (Hbr Hin2 ltac:(fold lb; lia) ltac:(atp Hcb2) ltac:(fold lb; lia) eq_refl Hcb2' eq_refl (Cl_trc _ _ _ _ _ _ _ _ HC1)). fold lb in Hbr.
+  replace (kp + (la + (1 + lb))) with (S (kp + la) + lb) by lia.
+  eapply (eres_seq b B env s d _ a g b1 s1 a2 g2 (S d)); [|lia|exact Hbr].
+  eapply mid_trans; [eapply mid_mono; [|exact M1]; lia|exact M2].
+Qed.
+
+Lemma espec_get : forall ea sp, espec ea -> espec (EGet ea sp).
+Proof.
+  intros ea sp IHa b B d lr k0 fuel kp a g env s kd Hfu Hk Hb Hinst Hd Hc Hend Hip Hcb Hops HC.
+  rewrite kexpr_eq in Hk. destruct (ok_dexpr B CD (EGet ea sp)) eqn:Ho.
+  { inversion Hk; subst kd. exact (espec_data _ b B d lr k0 fuel kp a g env s Ho Hb Hd Hc Hend Hip Hcb Hops HC). }
+  destruct (kexpr SF B CD ea) as [[|? ?|]|] eqn:Ea; try discriminate. inversion Hk; subst kd.
+  destruct fuel as [|fuel]; [exact Logic.I|]. rewrite eval_EGet.
+  rewrite ec_EGet in *. destruct (ec path (S d) lr k0 ea) as [ca fa] eqn:Eca. cbn [fst snd] in *.
+  rewrite !app_length in *. cbn [length] in *.
+  apply code_at_app in Hc as [Hca Hc]. apply code_at_cons in Hc as [Hi1 _].
+  set (la := length ca) in *.
+  pose proof (IHa b B (S d) lr k0 fuel kp a g env s KD ltac:(lia) Ea Hb) as He. rewrite Eca in He. cbn [fst snd] in He.
+  specialize (He Hinst ltac:(fold la; lia) Hca ltac:(fold la; lia) Hip Hcb Hops HC). fold la in He.
+  destruct (eval fuel env ea s) as [va s1|s1|f s1|]; [|exfalso; exact (eres_noval_KD _ _ _ _ _ _ _ _ _ He)|exact He|exact Logic.I].
+  apply eres_val_inv in He. destruct He as (a1 & g1 & b1 & wa & M1 & Hip1 & Hops1 & HC1 & [Hfoa ->]).
+  set (i1 := mkI OP_UNWRAP [sp]) in *.
+  pose proof (exec_unwrap sp a1 (trc name a1 g1 i1) (inj va) Hops1) as Hx.
+  assert (Hnn : va <> RNil -> eres_ok b B env s d (kp + (la + 1)) a g KD (EVal va s1)).
+  { intros Hne.
+    assert (Hx' : exec_d (DUnwrap sp) a1 (trc name a1 g1 i1) = SNext a1 (trc name a1 g1 i1)).
+    { rewrite Hx. destruct va as [z|bv|t| |p0 bd ev]; first [reflexivity|exfalso; now apply Hne|destruct Hfoa]. }
+    apply (eres_val b B env s d _ a g KD va s1 (set_ip a1 (S (a_ip a1))) (trc name a1 g1 i1) b1 (inj va));
+      [|cbn [set_ip a_ip]; lia|exact Hops1|apply Cl_trc; exact HC1|split; [exact Hfoa|reflexivity]].
+    eapply mid_trans; [eapply mid_mono; [|exact M1]; lia|]. apply mid_same; try reflexivity; [|repeat split].
+    eapply (xstep_next prog name code a1 g1 i1 _ (a_ip a1) a1); [reflexivity|rewrite Hip1; exact Hi1|apply dec_unwrap|exact Hx']. }
+  destruct va as [z|bv|t| |p0 bd ev]; try (apply Hnn; discriminate).
+  cbn [inj] in Hx. cbn [eres_ok]. apply fail_post_intro. exists (E_unwrap_nil sp), (trc name a1 g1 i1).
+  split; [|split; [reflexivity|exact (cl_out _ _ _ _ _ _ _ _ _ _ _ _ HC1)]].
+  eapply mid_fail; [exact M1|]. eapply xstep_fail; [exact Hip1|exact Hi1|apply dec_unwrap|exact Hx].
+Qed.
+
+(* ---------------------------------------------------------------- self(args) *)
+Lemma kself_inv : forall B l kd,
+  match SF with
+  | Some (pk, r) => match kargs SF B CD l with Some ks => if kinds_eqb ks pk then Some r else None | None => None end
+  | None => None end = Some kd ->
+  exists pk, SF = Some (pk, kd) /\ kargs SF B CD l = Some pk.
+Proof.
+  intros B l kd. generalize (kargs SF B CD l). intros o. case SF; [intros [pk r]|discriminate].
+  destruct o as [ks|]; [|discriminate]. destruct (kinds_eqb ks pk) eqn:E; [|discriminate].
+  intros H. inversion H; subst r. apply kinds_eqb_eq in E. subst ks. exists pk. auto.
+Qed.
+
+Lemma espec_self : forall l, Forall espec l -> espec (ESelf l).
+Proof.
+  intros l IHl b B d lr k0 fuel kp a g env s kd Hfu Hk Hb Hinst Hd Hc Hend Hip Hcb Hops HC.
+  rewrite kexpr_eq in Hk. destruct (ok_dexpr B CD (ESelf l)) eqn:Ho; [apply ok_dexpr_pure in Ho; discriminate|].
+  destruct (kself_inv B l kd Hk) as (pk & ESF & El). clear Hk.
+  destruct fuel as [|fuel]; [exact Logic.I|]. rewrite eval_ESelf.
+  rewrite ec_ESelf in *. destruct (eargs path lr (S d) k0 l) as [[ci cl] fl] eqn:Eea. cbn [fst snd] in *.
+  pose proof (eargs_loads lr l (S d) k0) as Ecl. rewrite Eea in Ecl. cbn [fst snd] in Ecl. subst cl.
+  rewrite !app_length in *. cbn [length] in *.
+  set (la := length ci) in *. set (na := length (argloads (S d) l)) in *.
+  assert (Hna : na = length l) by (unfold na; clear; generalize (S d); induction l; intros n; cbn [argloads length]; [reflexivity|now rewrite IHl]).
+  apply code_at_app in Hc as [Hca Hc]. apply code_at_app in Hc as [Hcl Hc]. fold la in Hcl, Hc.
+  apply code_at_cons in Hc as [Hi4 _]. fold na in Hi4.
+  (* the arguments *)
+  pose proof (args_sim l IHl b B (S d) lr k0 fuel kp a g env s pk [] ltac:(lia) El Hb) as Hargs.
+  rewrite Eea in Hargs. cbn [fst snd] in Hargs. fold la in Hargs.
+  specialize (Hargs Hinst ltac:(lia) Hca ltac:(lia) Hip Hcb Hops HC).
+  destruct (evals_ fuel env l s []) as [[vs s2]|r0]; cbn [ares_ok] in Hargs.
+  2:{ destruct r0 as [? ?|?|fl0 s2|]; try contradiction; cbn [eres_ok]; [exact Hargs|exact Logic.I]. }
+  destruct Hargs as (vs' & ws & a3 & g3 & b2 & Evs & M3 & Hip3 & Hops3 & HC3 & Hvs & Hreg).
+  cbn [rev app] in Evs. subst vs'.
+  destruct (vrels_length _ _ _ _ Hvs) as [Hlv Hlw].
+  assert (Hlk : length l = length pk).
+  { clear -El. revert pk El. induction l as [|e l IH]; intros pk El; cbn [kargs] in El; [inversion El; reflexivity|].
+    destruct (kexpr SF B CD e); [|discriminate]. destruct (kargs SF B CD l) as [ks|]; [|discriminate]. inversion El. cbn [length]. now rewrite (IH ks). }
+  (* the executing function value *)
+  pose proof (cl_cur _ _ _ _ _ _ _ _ _ _ _ _ HC3) as Hcur. unfold cur_ok in Hcur. rewrite ESF in Hcur.
+  destruct Hcur as (ps & body & cenv & Ecur & Hclos). rewrite Ecur.
+  (* reload the arguments *)
+  destruct (loads_sim l ws (S d) (kp + la) b2 (S d) s2 a3 g3 ltac:(congruence) Hreg ltac:(atp Hcl) Hip3) as (g4 & M4 & Hf4 & Hc4 & Ho4).
+  rewrite Hops3 in M4. cbn [app] in M4.
+  set (a4 := upd a3 (kp + la + length l) ws) in *.
+  assert (M04 : mid b d s a g b2 s2 a4 g4).
+  { eapply mid_trans; [eapply mid_mono; [|exact M3]; lia|]. eapply mid_mono; [|exact M4]. lia. }
+  assert (HC4 : ClA b2 B env s2 g4) by (eapply Cl_same; [exact HC3|exact Hc4|exact Hf4|exact Ho4]).
+  set (i4 := mkI OP_CALL_SELF []) in *.
+  set (g4t := trc name a4 g4 i4).
+  assert (HC4t : ClA b2 B env s2 g4t) by (apply Cl_trc; exact HC4).
+  assert (Hi4' : nth_error code (a_ip a4) = Some i4) by (cbn [a4 upd set_ip a_ip]; atp Hi4).
+  assert (Hcb4 : a_cb a4 = cb).
+  { unfold mid, rest in M3. destruct M3 as (_ & _ & _ & (_ & _ & A3) & _). cbn [a4 upd set_ip set_ops a_cb]. congruence. }
+  assert (Hx : exec_d DCallSelf a4 g4t = SCall name cb ws (set_ops a4 []) g4t).
+  { unfold exec_d. rewrite (cl_cf _ _ _ _ _ _ _ _ _ _ _ _ HC4t). cbn [a4 upd set_ip set_ops a_ops]. now rewrite <- Hcb4. }
+  assert (Hfin : S (a_ip a4) = kp + (la + (na + 1))) by (cbn [a4 upd set_ip a_ip]; lia).
+  (* the callee *)
+  pose proof (Hcall fuel ltac:(lia) b2 s2 g4t pk kd ps body cenv name cb vs ws
+                (cl_heap _ _ _ _ _ _ _ _ _ _ _ _ HC4t) (cl_out _ _ _ _ _ _ _ _ _ _ _ _ HC4t) (cl_nd _ _ _ _ _ _ _ _ _ _ _ _ HC4t)
+                Hclos Hvs) as Hcal.
+  destruct (call_clos_ fuel (RClos ps body cenv) vs s2) as [v s3|s3|flr s3|]; cbn [eres_ok]; [| | |exact Logic.I].
+  - destruct Hcal as (fuel' & g6 & b3 & w & Hrun & He3 & Hh3 & Hv3 & Hf6 & Ho6 & Hk6 & Hl6).
+    apply (eres_val b B env s d _ a g kd v s3 (next_act (set_ops a4 []) (Some w)) g6 b3 w);
+      [|unfold next_act; cbn [set_ip a_ip set_ops]; exact Hfin|reflexivity|
+       eapply Cl_after; [exact HC4t|exact (proj1 He3)|exact Hh3|exact Hf6|exact Ho6]|exact Hv3].
+    eapply mid_trans; [exact M04|]. unfold mid, rest.
+    split; [eapply xr_call; [exact Hi4'|reflexivity|exact Hx|exact Hrun|apply xr_refl]|].
+    split; [exact He3|]. split; [now rewrite Hf6|]. split; [repeat split|]. split; [reflexivity|].
+    split; [exact Hk6|]. split; [intros y _; now rewrite Hf6|exact Hl6].
+  - destruct Hcal as (Hrn & fuel' & g6 & b3 & Hrun & He3 & Hh3 & Hf6 & Ho6 & Hk6 & Hl6).
+    split; [exact Hrn|]. exists (next_act (set_ops a4 []) None), g6, b3.
+    assert (M6 : mid b2 d s2 a4 g4 b3 s3 (next_act (set_ops a4 []) None) g6).
+    { unfold mid, rest.
+      split; [eapply xr_call; [exact Hi4'|reflexivity|exact Hx|exact Hrun|apply xr_refl]|].
+      split; [exact He3|]. split; [now rewrite Hf6|]. split; [repeat split|]. split; [reflexivity|].
+      split; [exact Hk6|]. split; [intros y _; now rewrite Hf6|exact Hl6]. }
+    pose proof (mid_trans _ _ _ _ _ _ _ _ _ _ _ _ _ M04 M6) as M. unfold mid in M. destruct M as (R & E & Hr).
+    split; [exact R|]. split; [unfold next_act; cbn [set_ip a_ip set_ops]; exact Hfin|]. split; [reflexivity|].
+    split; [exact E|]. split; [eapply Cl_after; [exact HC4t|exact (proj1 He3)|exact Hh3|exact Hf6|exact Ho6]|exact Hr].
+  - eapply fail_post_map; [|exact Hcal]. intros (fuel' & e0 & g6 & Hrun & Hr & Ho6). exists e0, g6.
+    split; [|split; assumption]. unfold mid in M04. exists a4, g4. split; [exact (proj1 M04)|]. right.
+    exists i4, DCallSelf, name, cb, ws, (set_ops a4 []), g4t, fuel'. auto.
+Qed.
+
 Theorem espec_all : forall e, espec e.
 Proof.
   apply (expr_ind' espec (fun _ => True)); try (intros; exact Logic.I).
   all: try (unfold espec; intros;
-            match goal with Hk : kexpr ?B0 CD ?e0 = Some ?kd |- _ =>
+            match goal with Hk : kexpr SF ?B0 CD ?e0 = Some ?kd |- _ =>
               rewrite kexpr_eq in Hk; destruct (ok_dexpr B0 CD e0) eqn:Ho;
               [injection Hk as <-; eapply espec_data; eassumption|discriminate] end).
   - (* EVar *)
@@ -750,15 +1115,21 @@ Proof.
     destruct (src_nameb x); [|discriminate].
     exact (espec_var x b B d fuel kp a g env s kd Hk Hb Hc Hend Hip Hcb Hops HC).
   - exact espec_bin.
+  - intros ea eb IHa IHb. exact (espec_logic false ea eb IHa IHb).
+  - intros ea eb IHa IHb. exact (espec_logic true ea eb IHa IHb).
+  - exact espec_not.
   - (* ECall *)
     intros f l _ IHl. destruct f as [| | | |g0| | | | | | | | | |];
       try (intros bb BB dd lrr kk0 fuell kpp aa gg envv ss kdd Hfu Hk; rewrite kexpr_eq in Hk;
            match type of Hk with (if ok_dexpr ?B0 ?C0 ?e0 then _ else _) = _ => destruct (ok_dexpr B0 C0 e0) eqn:Ho end;
            [apply ok_dexpr_pure in Ho; discriminate|cbv beta iota in Hk; discriminate]).
     exact (espec_call g0 l IHl).
+  - exact espec_self.
   - (* EFn *)
     intros ps body _ b B d lr k0 fuel kp a g env s kd Hfu Hk Hb Hinst Hd Hc Hend Hip Hcb Hops HC.
     exact (espec_fn ps body b B d lr k0 fuel kp a g env s kd Hk Hb Hinst Hc Hend Hip Hcb Hops HC).
+  - exact espec_nilor.
+  - intros ea sp IHa. exact (espec_get ea sp IHa).
 Qed.
 
 (* ================================================================ statements *)
@@ -810,13 +1181,13 @@ Definition spost (b : cinj) (B' : kctx) (rets : list kind) (fin : nat) (env : fe
 
 Definition sspec (st : stmt) : Prop :=
   forall b B lr k0 fuel kp a g env s B' rets,
-    fuel <= FU -> kstmt B CD st = Some (B', rets) -> bound2 B env -> installed (snd (sc path c0 lr k0 st)) ->
+    fuel <= FU -> kstmt SF B CD st = Some (B', rets) -> bound2 B env -> installed (snd (sc path c0 lr k0 st)) ->
     code_at code kp (fst (sc path c0 lr k0 st)) -> endok code (kp + length (fst (sc path c0 lr k0 st))) (is_ret st) ->
     a_ip a = kp -> a_cb a = cb -> a_ops a = [] -> length (locals env) <= S (a_ss a) -> ClA b B env s g ->
     spost b B' rets (kp + length (fst (sc path c0 lr k0 st))) env s a g (Eval.exec fuel env st s).
 Definition bspec (l : list stmt) : Prop :=
   forall b B lr k0 fuel kp a g env s B' rets,
-    fuel <= FU -> kblock B CD l = Some (B', rets) -> bound2 B env -> installed (snd (bc path c0 lr k0 l)) ->
+    fuel <= FU -> kblock SF B CD l = Some (B', rets) -> bound2 B env -> installed (snd (bc path c0 lr k0 l)) ->
     code_at code kp (fst (bc path c0 lr k0 l)) -> endok code (kp + length (fst (bc path c0 lr k0 l))) (ends_ret l) ->
     a_ip a = kp -> a_cb a = cb -> a_ops a = [] -> length (locals env) <= S (a_ss a) -> ClA b B env s g ->
     spost b B' rets (kp + length (fst (bc path c0 lr k0 l))) env s a g (exec_block fuel env l s).
@@ -858,7 +1229,7 @@ Proof.
   intros x e b B lr k0 fuel kp a g env s B' rets Hfu Hk Hb Hinst Hc Hend Hip Hcb Hops Hss HC.
   destruct Hend as [Hend|[Hend _]]; [|discriminate Hend].
   cbn [kstmt] in Hk. destruct (src_nameb x) eqn:Hsx; [|discriminate].
-  destruct (kexpr B CD e) as [k|] eqn:Ee; [|discriminate].
+  destruct (kexpr SF B CD e) as [k|] eqn:Ee; [|discriminate].
   destruct fuel as [|fuel]; [exact Logic.I|]. rewrite exec_SAssign.
   rewrite sc_Assign in *. destruct (ec path c0 lr k0 e) as [ce fe] eqn:Eec. cbn [fst snd] in *.
   rewrite app_length in *. cbn [length] in *.
@@ -879,10 +1250,10 @@ Proof.
   destruct (assoc x B) as [k'|] eqn:EB.
   - (* an existing variable *)
     destruct (kind_eqb k k') eqn:Ek; [|discriminate]. apply kind_eqb_eq in Ek. subst k'. inversion Hk; subst B' rets.
-    destruct (cl_B _ _ _ _ _ _ _ _ _ _ HC1t x k EB) as (_ & c & c' & A1 & A2 & A3).
+    destruct (cl_B _ _ _ _ _ _ _ _ _ _ _ _ HC1t x k EB) as (_ & c & c' & A1 & A2 & A3).
     unfold assign. rewrite A1.
     assert (Hst : store_var g1t x w = Some (cell_set g1t c' w)) by (unfold store_var; now rewrite A2).
-    split; [apply same_tl_refl; exact (Cl_ne _ _ _ _ _ _ _ _ _ _ HC)|]. split; [exact Hb|].
+    split; [apply same_tl_refl; exact (Cl_ne _ _ _ _ _ _ _ _ _ _ _ _ HC)|]. split; [exact Hb|].
     exists a2, (cell_set g1t c' w), b1. split; [|split; [cbn [a2 set_ip a_ip]; lia|split; [reflexivity|]]].
     + eapply smid_trans; [exact SM1|]. unfold smid. split; [exact (Hstep _ Hst)|]. split; [apply bext_refl|].
       split; [reflexivity|]. split; [repeat split|]. split; [reflexivity|].
@@ -897,13 +1268,13 @@ Proof.
       clear -EB Hin. induction B as [|[y ky] t IH]; [destruct Hin|]. cbn [assoc map fst In] in *.
       destruct (str_eqb y x) eqn:E; [discriminate|]. destruct Hin as [->|Hin]; [now rewrite str_eqb_refl in E|auto]. }
     assert (Hf : find_in_function x (frames g1t) = None).
-    { pose proof (Rfr2_look _ _ _ (cl_fr _ _ _ _ _ _ _ _ _ _ HC1t) x Hx) as Hl. rewrite Hn in Hl.
+    { pose proof (Rfr2_look _ _ _ (cl_fr _ _ _ _ _ _ _ _ _ _ _ _ HC1t) x Hx) as Hl. rewrite Hn in Hl.
       destruct (find_in_function x (frames g1t)); [contradiction|reflexivity]. }
-    destruct (locals env) as [|sc l] eqn:El; [exact (False_ind _ (Cl_ne _ _ _ _ _ _ _ _ _ _ HC El))|].
-    destruct (frames g1t) as [|f fs] eqn:Ef; [exact (False_ind _ (proj2 (Rfr2_ne _ _ _ (cl_fr _ _ _ _ _ _ _ _ _ _ HC1t)) Ef))|].
-    destruct (Cl_declare path prog cb CD base b1 B env s1 g1t x k v w sc l f fs HC1t Hx Hv1 El Ef ltac:(rewrite El; exact Hn) EB (trace g1t))
+    destruct (locals env) as [|sc l] eqn:El; [exact (False_ind _ (Cl_ne _ _ _ _ _ _ _ _ _ _ _ _ HC El))|].
+    destruct (frames g1t) as [|f fs] eqn:Ef; [exact (False_ind _ (proj2 (Rfr2_ne _ _ _ (cl_fr _ _ _ _ _ _ _ _ _ _ _ _ HC1t)) Ef))|].
+    destruct (Cl_declare path prog cb CD base name SF b1 B env s1 g1t x k v w sc l f fs HC1t Hx Hv1 El Ef ltac:(rewrite El; exact Hn) EB (trace g1t))
       as [HC2 He2]. cbv zeta in HC2, He2.
-    match type of HC2 with Cl _ _ _ _ _ _ _ ?E ?S ?G => set (env' := E) in *; set (s' := S) in *; set (g2 := G) in * end.
+    match type of HC2 with Cl _ _ _ _ _ _ _ _ _ ?E ?S ?G => set (env' := E) in *; set (s' := S) in *; set (g2 := G) in * end.
     assert (Eas : assign env s1 x v = (env', s')).
     { unfold assign. rewrite El, Hn. unfold declare, alloc. rewrite El. reflexivity. }
     rewrite Eas.
@@ -939,7 +1310,7 @@ Proof.
   intros x e b B lr k0 fuel kp a g env s B' rets Hfu Hk Hb Hinst Hc Hend Hip Hcb Hops Hss HC.
   destruct Hend as [Hend|[Hend _]]; [|discriminate Hend].
   cbn [kstmt] in Hk. destruct (assoc x CD) as [k'|] eqn:EC; [|discriminate].
-  destruct (kexpr B CD e) as [k|] eqn:Ee; [|discriminate].
+  destruct (kexpr SF B CD e) as [k|] eqn:Ee; [|discriminate].
   destruct (src_nameb x && kind_eqb k k') eqn:Ec; [|discriminate]. apply andb_true_iff in Ec as [_ Ek].
   apply kind_eqb_eq in Ek. subst k'. inversion Hk; subst B' rets.
   destruct fuel as [|fuel]; [exact Logic.I|]. rewrite exec_SModify.
@@ -954,11 +1325,11 @@ Proof.
   set (i1 := mkI OP_STORE_OBJECT [x]) in *.
   set (g1t := trc name a1 g1 i1).
   pose proof (Cl_trc b1 B env s1 g1 name a1 i1 HC1) as HC1t. fold g1t in HC1t.
-  destruct (cl_cap _ _ _ _ _ _ _ _ _ _ HC1t x k EC) as (_ & c & c' & A1 & A2 & A3). rewrite A1.
+  destruct (cl_cap _ _ _ _ _ _ _ _ _ _ _ _ HC1t x k EC) as (_ & c & c' & A1 & A2 & A3). rewrite A1.
   set (a2 := set_ip (set_ops a1 []) (S (a_ip a1))).
   assert (Hcb1 : a_cb a1 = cb).
   { unfold smid in SM1. destruct SM1 as (_ & _ & _ & (_ & _ & A) & _). congruence. }
-  split; [apply same_tl_refl; exact (Cl_ne _ _ _ _ _ _ _ _ _ _ HC)|]. split; [exact Hb|].
+  split; [apply same_tl_refl; exact (Cl_ne _ _ _ _ _ _ _ _ _ _ _ _ HC)|]. split; [exact Hb|].
   exists a2, (cell_set g1t c' w), b1. split; [|split; [cbn [a2 set_ip a_ip]; lia|split; [reflexivity|eapply Cl_update; eassumption]]].
   eapply smid_trans; [exact SM1|]. unfold smid. split.
   - eapply (xstep_next prog name code a1 g1 i1 _ (a_ip a1) (set_ops a1 [])); [reflexivity|rewrite Hip1; exact Hi|apply dec_store_object|].
@@ -973,7 +1344,7 @@ Lemma print_sim : forall e, sspec (SPrint e).
 Proof.
   intros e b B lr k0 fuel kp a g env s B' rets Hfu Hk Hb Hinst Hc Hend Hip Hcb Hops Hss HC.
   destruct Hend as [Hend|[Hend _]]; [|discriminate Hend].
-  cbn [kstmt] in Hk. destruct (kexpr B CD e) as [[|? ?]|] eqn:Ee; try discriminate. cbn [is_KD] in Hk. inversion Hk; subst B' rets.
+  cbn [kstmt] in Hk. destruct (kexpr SF B CD e) as [[|? ?|]|] eqn:Ee; try discriminate. cbn [is_KD] in Hk. inversion Hk; subst B' rets.
   destruct fuel as [|fuel]; [exact Logic.I|]. rewrite exec_SPrint.
   rewrite sc_Print in *. destruct (ec path c0 lr k0 e) as [ce fe] eqn:Eec. cbn [fst snd] in *.
   rewrite app_length in *. cbn [length] in *.
@@ -986,7 +1357,7 @@ Proof.
   destruct (show_inj v Hfo) as (l & Hrs & Hsh). rewrite Hrs.
   set (g2 := emit_line (trc name a1 g1 (mkI OP_PRINTN [s_star])) l).
   set (a2 := set_ip a1 (S (a_ip a1))).
-  cbn [spost]. split; [apply same_tl_refl; exact (Cl_ne _ _ _ _ _ _ _ _ _ _ HC)|]. split; [exact Hb|].
+  cbn [spost]. split; [apply same_tl_refl; exact (Cl_ne _ _ _ _ _ _ _ _ _ _ _ _ HC)|]. split; [exact Hb|].
   exists (set_ip (set_ops a2 []) (S (a_ip a2))), (trc name a2 g2 (mkI OP_VOID [])), b1.
   split; [|split; [cbn [set_ip a_ip a2]; lia|split; [reflexivity|apply Cl_trc; apply Cl_print; apply Cl_trc; exact HC1]]].
   eapply smid_trans; [exact SM1|]. unfold smid. split.
@@ -1004,7 +1375,7 @@ Lemma expr_sim : forall e, sspec (SExpr e).
 Proof.
   intros e b B lr k0 fuel kp a g env s B' rets Hfu Hk Hb Hinst Hc Hend Hip Hcb Hops Hss HC.
   destruct Hend as [Hend|[Hend _]]; [|discriminate Hend].
-  cbn [kstmt] in Hk. destruct (kexpr B CD e) as [k|] eqn:Ee; [|discriminate]. inversion Hk; subst B' rets.
+  cbn [kstmt] in Hk. destruct (kexpr SF B CD e) as [k|] eqn:Ee; [|discriminate]. inversion Hk; subst B' rets.
   destruct fuel as [|fuel]; [exact Logic.I|]. rewrite exec_SExpr.
   rewrite sc_Expr in *. destruct (ec path c0 lr k0 e) as [ce fe] eqn:Eec. cbn [fst snd] in *.
   rewrite app_length in *. cbn [length] in *.
@@ -1014,7 +1385,7 @@ Proof.
   assert (Hdone : forall s1 a1 g1 b1, smid b s a g b1 s1 a1 g1 -> a_ip a1 = kp + length ce -> ClA b1 B env s1 g1 ->
             spost b B [] (kp + (length ce + 1)) env s a g (SOk SigNormal env s1)).
   { intros s1 a1 g1 b1 SM1 Hip1 HC1.
-    cbn [spost]. split; [apply same_tl_refl; exact (Cl_ne _ _ _ _ _ _ _ _ _ _ HC)|]. split; [exact Hb|].
+    cbn [spost]. split; [apply same_tl_refl; exact (Cl_ne _ _ _ _ _ _ _ _ _ _ _ _ HC)|]. split; [exact Hb|].
     exists (set_ip (set_ops a1 []) (S (a_ip a1))), (trc name a1 g1 (mkI OP_VOID [])), b1.
     split; [|split; [cbn [set_ip a_ip]; lia|split; [reflexivity|apply Cl_trc; exact HC1]]].
     eapply smid_trans; [exact SM1|]. apply smid_same; try reflexivity; [|repeat split].
@@ -1022,7 +1393,7 @@ Proof.
   destruct (eval fuel env e s) as [v s1|s1|f s1|]; cbn [eres_ok] in He; [| |exact He|exact Logic.I].
   - apply eres_val_inv in He. destruct He as (a1 & g1 & b1 & w & M1 & Hip1 & Hops1 & HC1 & Hv1).
     exact (Hdone s1 a1 g1 b1 (smid_of_mid _ _ _ _ _ _ _ _ _ M1) Hip1 HC1).
-  - destruct He as (a1 & g1 & b1 & R & Hip1 & Hops1 & E & HC1 & Hr).
+  - destruct He as (_ & a1 & g1 & b1 & R & Hip1 & Hops1 & E & HC1 & Hr).
     apply (Hdone s1 a1 g1 b1); [|exact Hip1|exact HC1]. apply (smid_of_mid b c0). unfold mid. auto.
 Qed.
 
@@ -1030,7 +1401,7 @@ Qed.
 Lemma return_sim : forall e, sspec (SReturn (Some e)).
 Proof.
   intros e b B lr k0 fuel kp a g env s B' rets Hfu Hk Hb Hinst Hc Hend Hip Hcb Hops Hss HC.
-  cbn [kstmt] in Hk. destruct (kexpr B CD e) as [k|] eqn:Ee; [|discriminate]. inversion Hk; subst B' rets.
+  cbn [kstmt] in Hk. destruct (kexpr SF B CD e) as [k|] eqn:Ee; [|discriminate]. inversion Hk; subst B' rets.
   destruct fuel as [|fuel]; [exact Logic.I|]. rewrite exec_SReturn.
   rewrite sc_Return in *. destruct (ec path c0 lr k0 e) as [ce fe] eqn:Eec. cbn [fst snd] in *.
   rewrite app_length in *. cbn [length] in *.
@@ -1042,15 +1413,15 @@ Proof.
   destruct (eval fuel env e s) as [v s1|s1|f s1|]; cbn [eres_ok spost] in He |- *; [|exact Logic.I|exact He|exact Logic.I].
   apply eres_val_inv in He. destruct He as (a1 & g1 & b1 & w & M1 & Hip1 & Hops1 & HC1 & Hv1).
   unfold mid, rest in M1. destruct M1 as (R1 & E1 & T1 & A1 & S1 & K1 & F1 & L1).
-  split; [apply same_tl_refl; exact (Cl_ne _ _ _ _ _ _ _ _ _ _ HC)|].
+  split; [apply same_tl_refl; exact (Cl_ne _ _ _ _ _ _ _ _ _ _ _ _ HC)|].
   exists a1, g1, b1, w, k. split; [exact R1|]. split; [rewrite Hip1; exact Hi1|]. split; [exact Hops1|]. split; [exact E1|].
-  split; [exact (cl_heap _ _ _ _ _ _ _ _ _ _ HC1)|]. split; [exact Hv1|]. split; [now left|].
-  split; [exact (cl_out _ _ _ _ _ _ _ _ _ _ HC1)|].
-  split; [rewrite (Rfr2_drop _ _ _ (cl_fr _ _ _ _ _ _ _ _ _ _ HC1)); exact (cl_base _ _ _ _ _ _ _ _ _ _ HC1)|]. split; [exact K1|exact L1].
+  split; [exact (cl_heap _ _ _ _ _ _ _ _ _ _ _ _ HC1)|]. split; [exact Hv1|]. split; [now left|].
+  split; [exact (cl_out _ _ _ _ _ _ _ _ _ _ _ _ HC1)|].
+  split; [rewrite (Rfr2_drop _ _ _ (cl_fr _ _ _ _ _ _ _ _ _ _ _ _ HC1)); exact (cl_base _ _ _ _ _ _ _ _ _ _ _ _ HC1)|]. split; [exact K1|exact L1].
 Qed.
 
 (* ---------------------------------------------------------------- sequencing *)
-Lemma sc_pos : forall st B B' rets lr k0, kstmt B CD st = Some (B', rets) -> 1 <= length (fst (sc path c0 lr k0 st)).
+Lemma sc_pos : forall st B B' rets lr k0, kstmt SF B CD st = Some (B', rets) -> 1 <= length (fst (sc path c0 lr k0 st)).
 Proof.
   intros st B B' rets lr k0 H. destruct st; try discriminate.
   - rewrite sc_Assign. destruct (ec path c0 lr k0 e). cbn [fst]. rewrite app_length. cbn. lia.
@@ -1058,6 +1429,8 @@ Proof.
   - rewrite sc_Print. destruct (ec path c0 lr k0 e). cbn [fst]. rewrite app_length. cbn. lia.
   - rewrite sc_Expr. destruct (ec path c0 lr k0 e). cbn [fst]. rewrite app_length. cbn. lia.
   - rewrite sc_SIf. destruct (ec path c0 lr k0 c). destruct (bc path c0 lr (k0 + length f) body). cbn [fst]. rewrite !app_length. cbn. lia.
+  - rewrite sc_SIfElse. destruct (ec path c0 lr k0 c). destruct (bc path c0 lr (k0 + length f) body).
+    destruct (bc path c0 lr (k0 + length f + length f0) els). cbn [fst]. rewrite !app_length. cbn. lia.
   - rewrite sc_SWhile. destruct (ec path c0 lr k0 c). destruct (bc path c0 lr (k0 + length f) body). cbn [fst]. rewrite !app_length. cbn. lia.
   - destruct step; [discriminate|]. destruct name0 as [x|]; [|discriminate]. destruct collide; [discriminate|].
     rewrite sc_SFrom. destruct (bc path c0 (S lr) k0 body). cbn [fst]. rewrite !app_length. cbn. lia.
@@ -1072,12 +1445,12 @@ Lemma bspec_of : forall l, Forall sspec l -> bspec l.
 Proof.
   induction l as [|st l IH]; intros HF b B lr k0 fuel kp a g env s B' rets Hfu Hk Hb Hinst Hc Hend Hip Hcb Hops Hss HC.
   - destruct fuel as [|fuel]; [exact Logic.I|]. rewrite exec_block_nil. cbn [kblock] in Hk. inversion Hk; subst B' rets.
-    cbn [bc fst length spost]. split; [apply same_tl_refl; exact (Cl_ne _ _ _ _ _ _ _ _ _ _ HC)|]. split; [exact Hb|].
+    cbn [bc fst length spost]. split; [apply same_tl_refl; exact (Cl_ne _ _ _ _ _ _ _ _ _ _ _ _ HC)|]. split; [exact Hb|].
     exists a, g, b. split; [apply smid_refl|]. split; [lia|]. split; [exact Hops|exact HC].
   - pose proof (Forall_inv HF) as Hst. pose proof (Forall_inv_tail HF) as Hl. specialize (IH Hl).
     destruct fuel as [|fuel]; [exact Logic.I|]. rewrite exec_block_cons.
-    cbn [kblock] in Hk. destruct (kstmt B CD st) as [[B1 r1]|] eqn:Es; [|discriminate].
-    destruct (kblock B1 CD l) as [[B3 r2]|] eqn:El; [|discriminate]. inversion Hk; subst B' rets.
+    cbn [kblock] in Hk. destruct (kstmt SF B CD st) as [[B1 r1]|] eqn:Es; [|discriminate].
+    destruct (kblock SF B1 CD l) as [[B3 r2]|] eqn:El; [|discriminate]. inversion Hk; subst B' rets.
     rewrite bc_cons in *. destruct (sc path c0 lr k0 st) as [cs fs] eqn:Esc. destruct (bc path c0 lr (k0 + length fs) l) as [cl fl] eqn:Ebc.
     cbn [fst snd] in *. rewrite app_length in *.
     apply (installed_app prog) in Hinst as [Hin1 Hin2]. apply code_at_app in Hc as [Hc1 Hc2].
@@ -1085,7 +1458,7 @@ Proof.
     assert (Hend1 : endok code (kp + length cs) (is_ret st)).
     { destruct l as [|st2 l2].
       - cbn [bc] in Ebc. inversion Ebc; subst cl fl. cbn [length ends_ret] in Hend. rewrite Nat.add_0_r in Hend. exact Hend.
-      - left. cbn [kblock] in El. destruct (kstmt B1 CD st2) as [[B2 rr]|] eqn:Es2; [|discriminate].
+      - left. cbn [kblock] in El. destruct (kstmt SF B1 CD st2) as [[B2 rr]|] eqn:Es2; [|discriminate].
         pose proof (sc_pos st2 B1 B2 rr lr (k0 + length fs) Es2) as Hp. rewrite bc_cons in Ebc.
         destruct (sc path c0 lr (k0 + length fs) st2) as [cs2 fs2]. destruct (bc path c0 lr (k0 + length fs + length fs2) l2) as [cl2 fl2].
         inversion Ebc; subst cl fl. cbn [fst] in Hp. rewrite app_length in Hle. lia. }
@@ -1101,7 +1474,7 @@ Proof.
     + cbn [spost] in H1. destruct H1 as (Hd & HB1 & a1 & g1 & b1 & SM1 & Hip1 & Hops1 & HC1).
       assert (Hcb1 : a_cb a1 = cb) by (unfold smid in SM1; destruct SM1 as (_ & _ & _ & (_ & _ & A) & _); congruence).
       assert (Hss1 : length (locals env1) <= S (a_ss a1)).
-      { unfold smid in SM1. destruct SM1 as (_ & _ & _ & _ & S1 & _). rewrite (same_tl_length _ _ (Cl_ne _ _ _ _ _ _ _ _ _ _ HC) Hd). lia. }
+      { unfold smid in SM1. destruct SM1 as (_ & _ & _ & _ & S1 & _). rewrite (same_tl_length _ _ (Cl_ne _ _ _ _ _ _ _ _ _ _ _ _ HC) Hd). lia. }
       pose proof (IH b1 B1 lr (k0 + length fs) fuel (kp + length cs) a1 g1 env1 s1 B3 r2 ltac:(lia) El HB1) as H2.
       rewrite Ebc in H2. cbn [fst snd] in H2. specialize (H2 Hin2 Hc2 Hend2 Hip1 Hcb1 Hops1 Hss1 HC1).
       rewrite Nat.add_assoc.
@@ -1118,28 +1491,30 @@ Qed.
 
 (* ---------------------------------------------------------------- blocks *)
 (* the names declared by a statement are new: the kinds of the existing ones are unchanged *)
-Lemma kstmt_ext : forall st B B' rets, kstmt B CD st = Some (B', rets) -> forall x k, assoc x B = Some k -> assoc x B' = Some k.
+Lemma kstmt_ext : forall st B B' rets, kstmt SF B CD st = Some (B', rets) -> forall x k, assoc x B = Some k -> assoc x B' = Some k.
 Proof.
   intros st B B' rets H x k Hx. destruct st; try discriminate.
-  - cbn [kstmt] in H. destruct (src_nameb x0); [|discriminate]. destruct (kexpr B CD e) as [k1|]; [|discriminate].
+  - cbn [kstmt] in H. destruct (src_nameb x0); [|discriminate]. destruct (kexpr SF B CD e) as [k1|]; [|discriminate].
     destruct (assoc x0 B) as [k'|] eqn:E0.
     + destruct (kind_eqb k1 k'); inversion H; subst; exact Hx.
     + inversion H; subst. cbn [assoc]. destruct (str_eqb x0 x) eqn:E; [apply str_eqb_iff in E; subst; congruence|exact Hx].
-  - cbn [kstmt] in H. destruct (assoc x0 CD); [|discriminate]. destruct (kexpr B CD e); [|discriminate].
+  - cbn [kstmt] in H. destruct (assoc x0 CD); [|discriminate]. destruct (kexpr SF B CD e); [|discriminate].
     destruct (src_nameb x0 && kind_eqb k1 k0); inversion H; subst; exact Hx.
-  - cbn [kstmt] in H. destruct (is_KD (kexpr B CD e)); inversion H; subst; exact Hx.
-  - cbn [kstmt] in H. destruct (kexpr B CD e); inversion H; subst; exact Hx.
-  - rewrite kstmt_SIf in H. destruct (is_KD (kexpr B CD c)); [|discriminate]. destruct (kblock B CD body) as [[? ?]|]; inversion H; subst; exact Hx.
-  - rewrite kstmt_SWhile in H. destruct (is_KD (kexpr B CD c)); [|discriminate]. destruct (kblock B CD body) as [[? ?]|]; inversion H; subst; exact Hx.
+  - cbn [kstmt] in H. destruct (is_KD (kexpr SF B CD e)); inversion H; subst; exact Hx.
+  - cbn [kstmt] in H. destruct (kexpr SF B CD e); inversion H; subst; exact Hx.
+  - rewrite kstmt_SIf in H. destruct (is_KD (kexpr SF B CD c)); [|discriminate]. destruct (kblock SF B CD body) as [[? ?]|]; inversion H; subst; exact Hx.
+  - rewrite kstmt_SIfElse in H. destruct (is_KD (kexpr SF B CD c)); [|discriminate]. destruct (kblock SF B CD body) as [[? ?]|]; [|discriminate].
+    destruct (kblock SF B CD els) as [[? ?]|]; inversion H; subst; exact Hx.
+  - rewrite kstmt_SWhile in H. destruct (is_KD (kexpr SF B CD c)); [|discriminate]. destruct (kblock SF B CD body) as [[? ?]|]; inversion H; subst; exact Hx.
   - destruct step; [discriminate|]. destruct name0 as [y|]; [|discriminate]. destruct collide; [discriminate|].
     rewrite kstmt_SFrom in H. destruct (ok_dexpr B CD a && ok_dexpr B CD b && src_nameb y && negb (mem_str y (map fst B)) && negb (mem_str y (used_e b))); [|discriminate].
-    destruct (kblock ((y, KD) :: B) CD body) as [[? ?]|]; inversion H; subst; exact Hx.
-  - destruct e as [e|]; [|discriminate]. cbn [kstmt] in H. destruct (kexpr B CD e); inversion H; subst; exact Hx.
+    destruct (kblock SF ((y, KD) :: B) CD body) as [[? ?]|]; inversion H; subst; exact Hx.
+  - destruct e as [e|]; [|discriminate]. cbn [kstmt] in H. destruct (kexpr SF B CD e); inversion H; subst; exact Hx.
 Qed.
-Lemma kblock_ext : forall l B B' rets, kblock B CD l = Some (B', rets) -> forall x k, assoc x B = Some k -> assoc x B' = Some k.
+Lemma kblock_ext : forall l B B' rets, kblock SF B CD l = Some (B', rets) -> forall x k, assoc x B = Some k -> assoc x B' = Some k.
 Proof.
   induction l as [|st l IH]; intros B B' rets H x k Hx; cbn [kblock] in H; [inversion H; subst; exact Hx|].
-  destruct (kstmt B CD st) as [[B1 r1]|] eqn:Es; [|discriminate]. destruct (kblock B1 CD l) as [[B3 r2]|] eqn:El; [|discriminate].
+  destruct (kstmt SF B CD st) as [[B1 r1]|] eqn:Es; [|discriminate]. destruct (kblock SF B1 CD l) as [[B3 r2]|] eqn:El; [|discriminate].
   inversion H; subst. eapply IH; [exact El|]. eapply kstmt_ext; eassumption.
 Qed.
 
@@ -1173,7 +1548,7 @@ Lemma bound2_eq : forall B env env', bound2 B env -> locals env' = locals env ->
 Proof. intros B env env' [H1 H2] E. split; [intros x; rewrite E; apply H1|exact H2]. Qed.
 
 Lemma in_block_sim : forall body, bspec body -> forall b B lr k0 fuel kb a g env s lb B' rets,
-  fuel <= FU -> kblock B CD body = Some (B', rets) -> bound2 B env -> installed (snd (bc path c0 lr k0 body)) ->
+  fuel <= FU -> kblock SF B CD body = Some (B', rets) -> bound2 B env -> installed (snd (bc path c0 lr k0 body)) ->
   code_at code kb (fst (bc path c0 lr k0 body) ++ [mkI OP_DONE []]) ->
   kb + length (fst (bc path c0 lr k0 body)) + 1 < length code ->
   a_ip a = kb -> a_cb a = cb -> a_ops a = [] -> length (locals env) <= S (a_ss a) -> ClA b B env s g -> special lb = true ->
@@ -1193,7 +1568,7 @@ Proof.
   cbn [spost bpost] in H |- *. destruct H as [Hd H].
   destruct Hd as [Htl Hne2]. cbn [push_scope locals tl] in Htl.
   assert (Hd' : same_tl env (pop_scope env2)).
-  { split; cbn [pop_scope locals]; rewrite Htl; [reflexivity|exact (Cl_ne _ _ _ _ _ _ _ _ _ _ HC)]. }
+  { split; cbn [pop_scope locals]; rewrite Htl; [reflexivity|exact (Cl_ne _ _ _ _ _ _ _ _ _ _ _ _ HC)]. }
   split; [exact Hd'|].
   destruct sig as [| | |[v|]]; try contradiction; [|exact H].
   destruct H as (HB2 & a2 & g2 & b2 & SM2 & Hip2 & Hops2 & HC2).
@@ -1202,12 +1577,12 @@ Proof.
   set (g2t := trc name a2 g2 i1).
   pose proof (Cl_trc b2 B' env2 s2 g2 name a2 i1 HC2) as HC2t. fold g2t in HC2t.
   destruct (locals env2) as [|sc2 l2] eqn:El2; [congruence|]. cbn [tl] in Htl. subst l2.
-  destruct (frames g2t) as [|f2 fs2] eqn:Ef2; [exact (False_ind _ (proj2 (Rfr2_ne _ _ _ (cl_fr _ _ _ _ _ _ _ _ _ _ HC2t)) Ef2))|].
+  destruct (frames g2t) as [|f2 fs2] eqn:Ef2; [exact (False_ind _ (proj2 (Rfr2_ne _ _ _ (cl_fr _ _ _ _ _ _ _ _ _ _ _ _ HC2t)) Ef2))|].
   assert (Efs : fs2 = frames g).
   { assert (Ht : tl (frames g2t) = frames g) by (change (frames g2t) with (frames g2); rewrite T2; reflexivity). rewrite Ef2 in Ht. exact Ht. }
   subst fs2.
   assert (HC3 : ClA b2 B (pop_scope env2) s2 (with_frames g2t (frames g))).
-  { apply (Cl_pop path prog cb CD base b2 B' B env2 s2 g2t sc2 (locals env) f2 (frames g) HC2t El2 (Cl_ne _ _ _ _ _ _ _ _ _ _ HC) Ef2).
+  { apply (Cl_pop path prog cb CD base name SF b2 B' B env2 s2 g2t sc2 (locals env) f2 (frames g) HC2t El2 (Cl_ne _ _ _ _ _ _ _ _ _ _ _ _ HC) Ef2).
     intros x k Hx. split; [eapply kblock_ext; eassumption|]. apply (proj1 Hb). eapply assoc_in_keys; exact Hx. }
   split; [eapply bound2_eq; [exact Hb|cbn [pop_scope locals]; rewrite El2; reflexivity]|].
   cbn [ap set_ss a_ss] in S2. destruct (a_ss a2) as [|ss2] eqn:Ess2; [lia|].
@@ -1224,8 +1599,8 @@ Lemma if_sim : forall cnd body, bspec body -> sspec (SIf cnd body).
 Proof.
   intros cnd body Hbody b B lr k0 fuel kp a g env s B' rets Hfu Hk Hb Hinst Hc Hend Hip Hcb Hops Hss HC.
   destruct Hend as [Hend|[Hend _]]; [|discriminate Hend].
-  rewrite kstmt_SIf in Hk. destruct (kexpr B CD cnd) as [[|? ?]|] eqn:Ec; try discriminate. cbn [is_KD] in Hk.
-  destruct (kblock B CD body) as [[B1 rb]|] eqn:Eb; [|discriminate]. inversion Hk; subst B' rets.
+  rewrite kstmt_SIf in Hk. destruct (kexpr SF B CD cnd) as [[|? ?|]|] eqn:Ec; try discriminate. cbn [is_KD] in Hk.
+  destruct (kblock SF B CD body) as [[B1 rb]|] eqn:Eb; [|discriminate]. inversion Hk; subst B' rets.
   destruct fuel as [|fuel]; [exact Logic.I|]. rewrite exec_SIf.
   rewrite sc_SIf in *. destruct (ec path c0 lr k0 cnd) as [cc fc] eqn:Eec.
   destruct (bc path c0 lr (k0 + length fc) body) as [cb0 fb] eqn:Ebc. cbn [fst snd] in *. cbv zeta in *.
@@ -1246,7 +1621,7 @@ Proof.
   assert (Hcb1 : a_cb a1 = cb) by (unfold smid in SM1; destruct SM1 as (_ & _ & _ & (_ & _ & A) & _); congruence).
   assert (Hss1 : a_ss a1 = a_ss a) by (unfold mid, rest in M1; destruct M1 as (_ & _ & _ & _ & S1 & _); exact S1).
   assert (Hnb : (forall b0, v <> RBool b0) -> spost b B rb (kp + (length cc + (1 + (length cb0 + 1)))) env s a g (SFailed (FType 12) s1)).
-  { intros Hv. apply (spost_fail_e b B rb _ env s a g (FType 12) s1 E_not_bool g1t); [|cbn; auto|exact (cl_out _ _ _ _ _ _ _ _ _ _ HC1)].
+  { intros Hv. apply (spost_fail_e b B rb _ env s a g (FType 12) s1 E_not_bool g1t); [|cbn; auto|exact (cl_out _ _ _ _ _ _ _ _ _ _ _ _ HC1)].
     eapply smid_fail; [exact SM1|]. eapply xstep_fail; [exact Hip1|exact Hi1|exact Hdec|].
     apply (exec_if_nb _ a1 g1t (inj v)); [exact Hops1|now apply not_bool_inj]. }
   destruct v as [z|bv|t| |p bd ev]; try (apply Hnb; intros b0; discriminate).
@@ -1279,7 +1654,7 @@ Proof.
     + eapply fail_post_map; [|exact Hblk]. intros (e0 & g' & Hf & Hr). exists e0, g'.
       split; [eapply smid_fail; [exact SM1|]; eapply xrun_fail; [exact Rp|exact Hf]|exact Hr].
   - (* false: jump over the body *)
-    split; [apply same_tl_refl; exact (Cl_ne _ _ _ _ _ _ _ _ _ _ HC)|]. split; [exact Hb|].
+    split; [apply same_tl_refl; exact (Cl_ne _ _ _ _ _ _ _ _ _ _ _ _ HC)|]. split; [exact Hb|].
     exists (set_ip (set_ops a1 []) (a_ip (set_ops a1 []) + off)), g1t, b1.
     split; [|split; [cbn [set_ip set_ops a_ip]; rewrite Hip1; unfold k1, off; lia|split; [reflexivity|exact HC1t]]].
     eapply smid_trans; [exact SM1|]. apply smid_same; try reflexivity; [|repeat split].
@@ -1287,17 +1662,127 @@ Proof.
     apply goto_fwd. cbn [set_ops a_ip]. rewrite Hip1. unfold off, k1. lia.
 Qed.
 
+(* ---------------------------------------------------------------- if / else *)
+Lemma ifelse_sim : forall cnd body els, bspec body -> bspec els -> sspec (SIfElse cnd body els).
+Proof.
+  intros cnd body els Hbody Hels b B lr k0 fuel kp a g env s B' rets Hfu Hk Hb Hinst Hc Hend Hip Hcb Hops Hss HC.
+  destruct Hend as [Hend|[Hend _]]; [|discriminate Hend].
+  rewrite kstmt_SIfElse in Hk. destruct (kexpr SF B CD cnd) as [[|? ?|]|] eqn:Ec; try discriminate. cbn [is_KD] in Hk.
+  destruct (kblock SF B CD body) as [[B1 rb]|] eqn:Eb; [|discriminate].
+  destruct (kblock SF B CD els) as [[B2 re]|] eqn:Ee; [|discriminate]. inversion Hk; subst B' rets.
+  destruct fuel as [|fuel]; [exact Logic.I|]. rewrite exec_SIfElse.
+  rewrite sc_SIfElse in *. destruct (ec path c0 lr k0 cnd) as [cc fc] eqn:Eec.
+  destruct (bc path c0 lr (k0 + length fc) body) as [cb0 fb] eqn:Ebc.
+  destruct (bc path c0 lr (k0 + length fc + length fb) els) as [ce0 fe] eqn:Ebe. cbn [fst snd] in *. cbv zeta in *.
+  rewrite !app_length in *. cbn [length] in *. rewrite !app_length in *. cbn [length] in *.
+  apply (installed_app prog) in Hinst as [Hin1 Hin2]. apply (installed_app prog) in Hin2 as [Hin2 Hin3].
+  apply code_at_app in Hc as [Hce Hi]. apply code_at_cons in Hi as [Hi1 Hi].
+  apply code_at_app in Hi as [Hib Hi]. rewrite app_length in Hi. cbn [length] in Hi.
+  apply code_at_cons in Hi as [Hi2 Hi]. apply code_at_cons in Hi as [Hi3 Hie].
+  pose proof (espec_all cnd b B c0 lr k0 fuel kp a g env s KD ltac:(lia) Ec Hb) as He. rewrite Eec in He. cbn [fst snd] in He.
+  specialize (He Hin1 ltac:(lia) Hce ltac:(lia) Hip Hcb Hops HC).
+  destruct (eval fuel env cnd s) as [v s1|s1|f s1|]; cbn [eres_ok spost] in He |- *; [|exact Logic.I|exact He|exact Logic.I].
+  apply eres_val_inv in He. destruct He as (a1 & g1 & b1 & w & M1 & Hip1 & Hops1 & HC1 & [Hfo ->]).
+  pose proof (smid_of_mid _ _ _ _ _ _ _ _ _ M1) as SM1.
+  set (k1 := kp + length cc) in *.
+  set (kj := S k1 + (length cb0 + 1)) in *.
+  set (ke := S kj) in *.
+  set (fin := kp + (length cc + (1 + (length cb0 + 1 + (1 + S (length ce0 + 1)))))) in *.
+  assert (Hfin : fin = S ke + length ce0 + 1) by (unfold fin, ke, kj, k1; lia).
+  set (off := length cb0 + 1 + 2) in *.
+  set (offj := S (length ce0 + 1) + 1) in *.
+  set (i1 := mkI OP_IF_STMT [sN off]) in *.
+  assert (Hdec : decode i1 = DOk (DIf (Z.of_nat off))) by (apply dec_if; eapply small_le; [|exact Hsmall]; unfold off, fin in *; lia).
+  set (g1t := trc name a1 g1 i1).
+  pose proof (Cl_trc b1 B env s1 g1 name a1 i1 HC1) as HC1t. fold g1t in HC1t.
+  assert (Hcb1 : a_cb a1 = cb) by (unfold smid in SM1; destruct SM1 as (_ & _ & _ & (_ & _ & A) & _); congruence).
+  assert (Hss1 : a_ss a1 = a_ss a) by (unfold mid, rest in M1; destruct M1 as (_ & _ & _ & _ & S1 & _); exact S1).
+  assert (Hnb : (forall b0, v <> RBool b0) -> spost b B (rb ++ re) fin env s a g (SFailed (FType 12) s1)).
+  { intros Hv. apply (spost_fail_e b B (rb ++ re) _ env s a g (FType 12) s1 E_not_bool g1t); [|cbn; auto|exact (cl_out _ _ _ _ _ _ _ _ _ _ _ _ HC1)].
+    eapply smid_fail; [exact SM1|]. eapply xstep_fail; [exact Hip1|exact Hi1|exact Hdec|].
+    apply (exec_if_nb _ a1 g1t (inj v)); [exact Hops1|now apply not_bool_inj]. }
+  destruct v as [z|bv|t| |p bd ev]; try (apply Hnb; intros b0; discriminate).
+  pose proof (exec_if (Z.of_nat off) a1 g1t bv Hops1) as Hx.
+  (* what remains after a block has run in its frame: the same for both branches *)
+  assert (Hafter : forall blk rr ap gp (Rp : xrun prog name code a1 g1 ap gp) ffin,
+            (forall k, In k rr -> In k (rb ++ re)) ->
+            (forall a2 g2, a_ip a2 = ffin -> a_ops a2 = [] -> exists a3 g3, xrun prog name code a2 g2 a3 g3 /\ a_ip a3 = fin /\ a_ops a3 = [] /\
+                 frames g3 = frames g2 /\ cells g3 = cells g2 /\ out g3 = out g2 /\ act_same a2 a3 /\ a_ss a3 = a_ss a2) ->
+            a_ss ap = S (a_ss a1) -> act_same a1 ap -> cells gp = cells g1 ->
+            bpost b1 B rr ffin env s1 g1t ap gp (in_block_ fuel blk env s1) ->
+            spost b B (rb ++ re) fin env s a g (in_block_ fuel blk env s1)).
+  { intros blk rr ap gp Rp ffin Hrr Htail Hssp Hap Ecp Hblk.
+    assert (Hbx : forall b2, bext b1 b2 s1 gp -> bext b1 b2 s1 g1) by (intros b2 E; unfold bext in *; rewrite <- Ecp; exact E).
+    assert (Hkx : forall g2, keep b1 gp g2 -> keep b1 g1 g2) by (intros g2 K c' w0 Hc'; apply K; unfold cell_get in *; rewrite Ecp; exact Hc').
+    assert (Hlx : forall s2 g2, lens s1 s2 gp g2 -> lens s1 s2 g1 g2) by (intros s2 g2 L; unfold lens in *; rewrite <- Ecp; exact L).
+    destruct (in_block_ fuel blk env s1) as [sig env2 s2|f s2|]; cbn [bpost spost] in Hblk |- *; [| |exact Logic.I].
+    + destruct Hblk as [Hd H]. split; [exact Hd|]. destruct sig as [| | |[v|]]; try contradiction.
+      * destruct H as (HB2 & a2 & g2 & b2 & R2 & E2 & F2 & A2 & S2 & K2 & L2 & Hip2 & Hops2 & HC2). split; [exact HB2|].
+        destruct (Htail a2 g2 Hip2 Hops2) as (a3 & g3 & R3 & Hip3 & Hops3 & F3 & C3 & O3 & A3 & S3).
+        exists a3, g3, b2. split; [|split; [exact Hip3|split; [exact Hops3|eapply Cl_same; [exact HC2|exact C3|exact F3|exact O3]]]].
+        eapply smid_trans; [exact SM1|]. unfold smid.
+        split; [eapply xrun_trans; [exact Rp|]; eapply xrun_trans; [exact R2|exact R3]|]. split; [exact (Hbx _ E2)|].
+        split; [rewrite F3, F2; reflexivity|].
+        split; [destruct A2 as (X1 & X2 & X3); destruct A3 as (Y1 & Y2 & Y3); destruct Hap as (Z1 & Z2 & Z3); repeat split; congruence|].
+        split; [rewrite S3; lia|].
+        split; [intros c' w0 Hc' Hn0; unfold cell_get; rewrite C3; exact (Hkx _ K2 c' w0 Hc' Hn0)|].
+        destruct (Hlx _ _ L2) as [L2a L2b]. split; [exact L2a|rewrite C3; exact L2b].
+      * destruct H as (a2 & g2 & b2 & w & k & R2 & Hi2' & Hops2 & E2 & Hh2 & Hv2 & Hk2 & Ho2 & Hdr2 & K2 & L2).
+        unfold smid in SM1. destruct SM1 as (R1 & E1 & T1 & A1 & S1 & K1 & L1).
+        exists a2, g2, b2, w, k. split; [eapply xrun_trans; [exact R1|]; eapply xrun_trans; [exact Rp|exact R2]|].
+        split; [exact Hi2'|]. split; [exact Hops2|].
+        split; [eapply bext_trans; [exact E1|exact (Hbx _ E2)|exact (proj1 L1)|exact (proj2 L1)]|]. split; [exact Hh2|]. split; [exact Hv2|].
+        split; [exact (Hrr _ Hk2)|]. split; [exact Ho2|]. split; [exact Hdr2|]. split; [eapply keep_trans; [exact K1|exact E1|exact (Hkx _ K2)]|eapply lens_trans; [exact L1|exact (Hlx _ _ L2)]].
+    + eapply fail_post_map; [|exact Hblk]. intros (e0 & g' & Hf & Hr). exists e0, g'.
+      split; [eapply smid_fail; [exact SM1|]; eapply xrun_fail; [exact Rp|exact Hf]|exact Hr]. }
+  destruct bv.
+  - (* true: push <if>, run the body, done, jump over the else branch *)
+    set (a1' := set_ip (set_ops a1 []) (S (a_ip a1))).
+    assert (Rp : xrun prog name code a1 g1 (set_ss a1' (S (a_ss a1'))) (push_frame g1t LIf)).
+    { eapply (xstep_push prog name code a1 g1 i1 _ k1 LIf (set_ops a1 [])); [exact Hip1|exact Hi1|exact Hdec|exact Hx]. }
+    pose proof (in_block_sim body Hbody b1 B lr (k0 + length fc) fuel (S k1) a1' g1t env s1 LIf B1 rb ltac:(lia) Eb Hb) as Hblk.
+    rewrite Ebc in Hblk. cbn [fst snd] in Hblk.
+    specialize (Hblk Hin2 ltac:(atp Hib) ltac:(unfold fin, k1 in *; lia) ltac:(cbn [a1' set_ip a_ip]; lia) Hcb1 eq_refl
+                     ltac:(cbn [a1' set_ip set_ops a_ss]; rewrite Hss1; exact Hss) HC1t eq_refl).
+    apply (Hafter body rb _ _ Rp (S k1 + length cb0 + 1)); [intros k Hk0; apply in_or_app; now left| |reflexivity|repeat split|reflexivity|exact Hblk].
+    intros a2 g2 Hip2 Hops2.
+    set (ij := mkI OP_JMP [sN offj]) in *.
+    exists (set_ip a2 (kj + offj)), (trc name a2 g2 ij).
+    split; [|split; [cbn [set_ip a_ip]; unfold fin, kj, offj, k1; lia|split; [exact Hops2|repeat split]]].
+    eapply (xstep_goto prog name code a2 g2 ij _ kj _ a2); [rewrite Hip2; unfold kj; lia|atp Hi2| |apply exec_jmp|].
+    + apply dec_jmp. eapply small_le; [|exact Hsmall]. unfold offj, fin in *. lia.
+    + rewrite Hip2. replace (S k1 + length cb0 + 1) with kj by (unfold kj; lia). apply goto_fwd. unfold offj, fin, kj, k1 in *. lia.
+  - (* false: jump to else_stmt, push <else>, the else block, done *)
+    set (a2 := set_ip (set_ops a1 []) ke).
+    set (ie := mkI OP_ELSE_STMT []) in *.
+    set (g2t := trc name a2 g1t ie).
+    set (a2' := set_ip a2 (S ke)).
+    assert (Rg : xrun prog name code a1 g1 a2 g1t).
+    { eapply (xstep_goto prog name code a1 g1 i1 _ k1 _ (set_ops a1 [])); [exact Hip1|exact Hi1|exact Hdec|exact Hx|].
+      cbn [set_ops a_ip]. rewrite Hip1. rewrite goto_fwd by (unfold off, fin, k1 in *; lia). f_equal. unfold off, ke, kj. lia. }
+    assert (Rp : xrun prog name code a1 g1 (set_ss a2' (S (a_ss a2'))) (push_frame g2t LElse)).
+    { eapply xrun_trans; [exact Rg|].
+      eapply (xstep_push prog name code a2 g1t ie _ ke LElse a2); [reflexivity|atp Hi3|apply dec_else|apply exec_else]. }
+    pose proof (in_block_sim els Hels b1 B lr (k0 + length fc + length fb) fuel (S ke) a2' g2t env s1 LElse B2 re ltac:(lia) Ee Hb) as Hblk.
+    rewrite Ebe in Hblk. cbn [fst snd] in Hblk.
+    specialize (Hblk Hin3 ltac:(atp Hie) ltac:(unfold fin, ke, kj, k1 in *; lia) eq_refl Hcb1 eq_refl
+                     ltac:(cbn [a2' a2 set_ip set_ops a_ss]; rewrite Hss1; exact Hss) ltac:(apply Cl_trc; exact HC1t) eq_refl).
+    apply (Hafter els re _ _ Rp (S ke + length ce0 + 1)); [intros k Hk0; apply in_or_app; now right| |reflexivity|repeat split|reflexivity|].
+    + intros a3 g3 Hip3 Hops3. exists a3, g3. split; [apply xrun_refl|]. split; [rewrite Hip3; lia|]. split; [exact Hops3|]. repeat split.
+    + exact Hblk.
+Qed.
+
 (* ---------------------------------------------------------------- loop bodies: the state at the end of the body, still
    inside its frame (the loop's back edge pops it) *)
 Lemma Cl_pop_block : forall b2 B B' rets body env env2 s2 g2,
   ClA b2 B' env2 s2 g2 -> tl (locals env2) = locals env -> locals env <> [] -> locals env2 <> [] ->
-  kblock B CD body = Some (B', rets) -> bound2 B env ->
+  kblock SF B CD body = Some (B', rets) -> bound2 B env ->
   ClA b2 B (pop_scope env2) s2 (with_frames g2 (tl (frames g2))).
 Proof.
   intros b2 B B' rets body env env2 s2 g2 HC2 Htl Hne Hne2 Hk Hb.
   destruct (locals env2) as [|sc2 l2] eqn:El2; [congruence|]. cbn [tl] in Htl. subst l2.
-  destruct (frames g2) as [|f2 fs2] eqn:Ef2; [exact (False_ind _ (proj2 (Rfr2_ne _ _ _ (cl_fr _ _ _ _ _ _ _ _ _ _ HC2)) Ef2))|].
-  cbn [tl]. apply (Cl_pop path prog cb CD base b2 B' B env2 s2 g2 sc2 (locals env) f2 fs2 HC2 El2 Hne Ef2).
+  destruct (frames g2) as [|f2 fs2] eqn:Ef2; [exact (False_ind _ (proj2 (Rfr2_ne _ _ _ (cl_fr _ _ _ _ _ _ _ _ _ _ _ _ HC2)) Ef2))|].
+  cbn [tl]. apply (Cl_pop path prog cb CD base name SF b2 B' B env2 s2 g2 sc2 (locals env) f2 fs2 HC2 El2 Hne Ef2).
   intros x k Hx. split; [eapply kblock_ext; eassumption|]. apply (proj1 Hb). eapply assoc_in_keys; exact Hx.
 Qed.
 
@@ -1321,7 +1806,7 @@ Definition bodypost (b : cinj) (B' : kctx) (rets : list kind) (fin : nat) (env :
   end.
 
 Lemma body_sim : forall body, bspec body -> forall b B lr k0 fuel kb a g env s lb B' rets,
-  fuel <= FU -> kblock B CD body = Some (B', rets) -> bound2 B env -> installed (snd (bc path c0 lr k0 body)) ->
+  fuel <= FU -> kblock SF B CD body = Some (B', rets) -> bound2 B env -> installed (snd (bc path c0 lr k0 body)) ->
   code_at code kb (fst (bc path c0 lr k0 body)) -> kb + length (fst (bc path c0 lr k0 body)) < length code ->
   a_ip a = kb -> a_cb a = cb -> a_ops a = [] -> length (locals env) <= S (a_ss a) -> ClA b B env s g -> special lb = true ->
   bodypost b B' rets (kb + length (fst (bc path c0 lr k0 body))) env s g (set_ss a (S (a_ss a))) (push_frame g lb)
@@ -1363,8 +1848,8 @@ Lemma while_sim : forall cnd body, bspec body -> sspec (SWhile cnd body).
 Proof.
   intros cnd body Hbody b B lr k0 fuel kp a g env s B' rets Hfu Hk Hb Hinst Hc Hend Hip Hcb Hops Hss HC.
   destruct Hend as [Hend|[Hend _]]; [|discriminate Hend].
-  rewrite kstmt_SWhile in Hk. destruct (kexpr B CD cnd) as [[|? ?]|] eqn:Ec; try discriminate. cbn [is_KD] in Hk.
-  destruct (kblock B CD body) as [[B1 rb]|] eqn:Eb; [|discriminate]. inversion Hk; subst B' rets.
+  rewrite kstmt_SWhile in Hk. destruct (kexpr SF B CD cnd) as [[|? ?|]|] eqn:Ec; try discriminate. cbn [is_KD] in Hk.
+  destruct (kblock SF B CD body) as [[B1 rb]|] eqn:Eb; [|discriminate]. inversion Hk; subst B' rets.
   rewrite sc_SWhile in *. destruct (ec path c0 lr k0 cnd) as [cc fc] eqn:Eec.
   destruct (bc path c0 lr (k0 + length fc) body) as [cb0 fb] eqn:Ebc. cbn [fst snd] in *. cbv zeta in *.
   rewrite !app_length in *. cbn [length] in *.
@@ -1390,14 +1875,14 @@ Proof.
   assert (Hcb1 : a_cb a1 = cb) by (unfold smid in SM1; destruct SM1 as (_ & _ & _ & (_ & _ & A) & _); congruence).
   assert (Hss1 : a_ss a1 = a_ss a) by (unfold mid, rest in M1; destruct M1 as (_ & _ & _ & _ & S1 & _); exact S1).
   assert (Hnb : (forall b0, v <> RBool b0) -> spost b B rb fin env s a g (SFailed (FType 12) s1)).
-  { intros Hv. apply (spost_fail_e b B rb _ env s a g (FType 12) s1 E_not_bool g1t); [|cbn; auto|exact (cl_out _ _ _ _ _ _ _ _ _ _ HC1)].
+  { intros Hv. apply (spost_fail_e b B rb _ env s a g (FType 12) s1 E_not_bool g1t); [|cbn; auto|exact (cl_out _ _ _ _ _ _ _ _ _ _ _ _ HC1)].
     eapply smid_fail; [exact SM1|]. eapply xstep_fail; [exact Hip1|exact Hi1|exact Hdec|].
     apply (exec_while_nb _ a1 g1t (inj v)); [exact Hops1|now apply not_bool_inj]. }
   destruct v as [z|bv|t| |p bd ev]; try (apply Hnb; intros b0; discriminate).
   pose proof (exec_while (Z.of_nat off) a1 g1t bv Hops1) as Hx.
   destruct bv.
   2:{ (* false: leave *)
-    split; [apply same_tl_refl; exact (Cl_ne _ _ _ _ _ _ _ _ _ _ HC)|]. split; [exact Hb|].
+    split; [apply same_tl_refl; exact (Cl_ne _ _ _ _ _ _ _ _ _ _ _ _ HC)|]. split; [exact Hb|].
     exists (set_ip (set_ops a1 []) (a_ip (set_ops a1 []) + off)), g1t, b1.
     split; [|split; [cbn [set_ip set_ops a_ip]; rewrite Hip1; unfold fin, kj, kb, off; lia|split; [reflexivity|exact HC1t]]].
     eapply smid_trans; [exact SM1|]. apply smid_same; try reflexivity; [|repeat split].
@@ -1418,18 +1903,18 @@ Proof.
       split; [eapply smid_fail; [exact SM1|]; eapply xrun_fail; [exact Rp|exact Hf]|exact Hr]. }
   destruct Hbd as (Htl2 & Hne2 & H).
   assert (Hd2 : same_tl env (pop_scope env2)).
-  { split; cbn [pop_scope locals]; rewrite Htl2; [reflexivity|exact (Cl_ne _ _ _ _ _ _ _ _ _ _ HC)]. }
+  { split; cbn [pop_scope locals]; rewrite Htl2; [reflexivity|exact (Cl_ne _ _ _ _ _ _ _ _ _ _ _ _ HC)]. }
   destruct sig as [| | |[v|]]; try contradiction.
   - destruct H as (a2 & g2 & b2 & R2 & E2 & T2 & A2 & S2 & K2 & L2 & Hip2 & Hops2 & HC2).
     set (ij := mkI OP_JMP_POP [neg_off (1 + length cb0 + length cc)]) in *.
     set (g3 := with_frames (trc name a2 g2 ij) (tl (frames g2))).
     assert (R3 : xrun prog name code a2 g2 (set_ip a2 kp) g3).
     { apply (back_edge2 kj (1 + length cb0 + length cc) kp a2 g2 Hj'); [unfold fin, kj, kb, kw in *; lia|unfold fin in *; lia|
-        unfold kj, kb, kw; lia|exact Hip2|exact (proj2 (Rfr2_ne _ _ _ (cl_fr _ _ _ _ _ _ _ _ _ _ HC2)))]. }
+        unfold kj, kb, kw; lia|exact Hip2|exact (proj2 (Rfr2_ne _ _ _ (cl_fr _ _ _ _ _ _ _ _ _ _ _ _ HC2)))]. }
     assert (HC3 : ClA b2 B (pop_scope env2) s2 g3).
     { unfold g3. change (tl (frames g2)) with (tl (frames (trc name a2 g2 ij))).
       eapply (Cl_pop_block b2 B B1 rb body env env2 s2 (trc name a2 g2 ij)); [apply Cl_trc; exact HC2|exact Htl2|
-        exact (Cl_ne _ _ _ _ _ _ _ _ _ _ HC)|exact Hne2|exact Eb|exact Hb]. }
+        exact (Cl_ne _ _ _ _ _ _ _ _ _ _ _ _ HC)|exact Hne2|exact Eb|exact Hb]. }
     assert (SM3 : smid b s a g b2 s2 (set_ip a2 kp) g3).
     { eapply smid_trans; [exact SM1|]. unfold smid.
       split; [eapply xrun_trans; [exact Rp|]; eapply xrun_trans; [exact R2|exact R3]|]. split; [exact E2|].
@@ -1498,7 +1983,7 @@ Proof.
     [|discriminate].
   rewrite !andb_true_iff in Hcnd. destruct Hcnd as [[[[Hoa Hob] Hsx] HxB] HxU].
   apply negb_true_iff in HxB. apply negb_true_iff in HxU.
-  destruct (kblock ((x, KD) :: B) CD body) as [[B1 rb]|] eqn:Eb; [|discriminate]. inversion Hk; subst B' rets.
+  destruct (kblock SF ((x, KD) :: B) CD body) as [[B1 rb]|] eqn:Eb; [|discriminate]. inversion Hk; subst B' rets.
   pose proof (src_nameb_ok x Hsx) as Hx.
   assert (HxnB : ~ In x (map fst B)) by (intros Hin; apply In_mem_str in Hin; congruence).
   assert (HxnU : ~ In x (used_e eb)) by (intros Hin; apply In_mem_str in Hin; congruence).
@@ -1553,13 +2038,13 @@ Proof.
   pose proof (Cl_trc b1 B env s1 g1 name a1 i_sx HC1) as HC1t. fold g1t in HC1t.
   assert (Hn : lookup_scopes x (locals env) = None).
   { destruct (lookup_scopes x (locals env)) eqn:E; [|reflexivity]. exfalso. apply HxnB. apply (proj1 Hb). congruence. }
-  destruct (locals env) as [|sc0 l'] eqn:El; [exact (False_ind _ (Cl_ne _ _ _ _ _ _ _ _ _ _ HC El))|].
-  destruct (frames g1t) as [|f1 R] eqn:Ef1; [exact (False_ind _ (proj2 (Rfr2_ne _ _ _ (cl_fr _ _ _ _ _ _ _ _ _ _ HC1t)) Ef1))|].
-  destruct (Cl_declare path prog cb CD base b1 B env s1 g1t x KD va (inj va) sc0 l' f1 R HC1t Hx (conj Hfoa eq_refl) El Ef1
+  destruct (locals env) as [|sc0 l'] eqn:El; [exact (False_ind _ (Cl_ne _ _ _ _ _ _ _ _ _ _ _ _ HC El))|].
+  destruct (frames g1t) as [|f1 R] eqn:Ef1; [exact (False_ind _ (proj2 (Rfr2_ne _ _ _ (cl_fr _ _ _ _ _ _ _ _ _ _ _ _ HC1t)) Ef1))|].
+  destruct (Cl_declare path prog cb CD base name SF b1 B env s1 g1t x KD va (inj va) sc0 l' f1 R HC1t Hx (conj Hfoa eq_refl) El Ef1
               ltac:(rewrite El; exact Hn) HxBn (trace g1t)) as [HC2 He2]. cbv zeta in HC2, He2.
   set (cx := N.of_nat (length (store s1))) in *. set (c'x := N.of_nat (length (cells g1t))) in *.
   set (b2 := add_pair b1 cx c'x KD) in *.
-  match type of HC2 with Cl _ _ _ _ _ _ _ ?E ?S ?G => set (env1 := E) in *; set (s1' := S) in *; set (g2 := G) in * end.
+  match type of HC2 with Cl _ _ _ _ _ _ _ _ _ ?E ?S ?G => set (env1 := E) in *; set (s1' := S) in *; set (g2 := G) in * end.
   set (B2 := (x, KD) :: B) in *.
   set (a2 := set_ip (set_ops a1 []) (S (a_ip a1))).
   assert (Hip2 : a_ip a2 = S k1) by (cbn [a2 set_ip a_ip]; now rewrite Hip1).
@@ -1604,11 +2089,11 @@ Proof.
   set (i_se := mkI OP_STORE_FAST [endr]) in *.
   set (g3t := trc name a3 g3 i_se).
   pose proof (Cl_trc b2 B2 env1 s1' g3 name a3 i_se HC3) as HC3t. fold g3t in HC3t.
-  destruct (Cl_bind_reg path prog cb CD base b2 B2 env1 s1' g3t endr (inj (RInt hi)) HC3t (lregn_not_uname0 _)) as (f3 & R' & Ef3 & Hb3).
+  destruct (Cl_bind_reg path prog cb CD base name SF b2 B2 env1 s1' g3t endr (inj (RInt hi)) HC3t (lregn_not_uname0 _)) as (f3 & R' & Ef3 & Hb3).
   cbv zeta in Hb3. destruct Hb3 as [Hbind3 HC4].
   set (ce := N.of_nat (length (cells g3t))) in *.
   set (F2 := {| lab := lab f3; vars := assoc_set endr ce (vars f3) |}) in *.
-  match type of HC4 with Cl _ _ _ _ _ _ _ _ _ ?G => set (g4 := G) in * end.
+  match type of HC4 with Cl _ _ _ _ _ _ _ _ _ _ _ ?G => set (g4 := G) in * end.
   assert (ER : R' = R).
   { assert (H : tl (frames g3t) = tl (frames g2)) by exact (ext_tail _ _ _ _ _ He3). rewrite Ef3 in H. exact H. }
   subst R'.
@@ -1626,13 +2111,13 @@ Proof.
   assert (HaeF2 : assoc endr (vars F2) = Some ce) by (unfold F2; cbn [vars]; apply assoc_set_same).
   assert (Ef4 : frames g4 = F2 :: R) by reflexivity.
   assert (HndF2 : keys_nd (vars F2)).
-  { pose proof (cl_nd _ _ _ _ _ _ _ _ _ _ HC4) as Hnd. rewrite Ef4 in Hnd. inversion Hnd; assumption. }
+  { pose proof (cl_nd _ _ _ _ _ _ _ _ _ _ _ _ HC4) as Hnd. rewrite Ef4 in Hnd. inversion Hnd; assumption. }
   assert (Hsc0 : assoc x sc0 = None /\ lookup_scopes x l' = None).
   { cbn [lookup_scopes] in Hn. destruct (assoc x sc0); [discriminate|]. auto. }
   assert (Hce4 : cell_get g4 ce = Some (VInt hi)).
   { unfold cell_get, ce. cbn [g4 cells]. rewrite Nnat.Nat2N.id, nth_error_app2, Nat.sub_diag by lia. reflexivity. }
   assert (Hcen : forall c k, ~ b2 c ce k).
-  { intros c k Hbc. destruct (heap_valid path prog _ _ _ _ _ _ (cl_heap _ _ _ _ _ _ _ _ _ _ HC3t) Hbc) as [_ Hv]. unfold ce in Hv. rewrite Nnat.Nat2N.id in Hv. lia. }
+  { intros c k Hbc. destruct (heap_valid path prog _ _ _ _ _ _ (cl_heap _ _ _ _ _ _ _ _ _ _ _ _ HC3t) Hbc) as [_ Hv]. unfold ce in Hv. rewrite Nnat.Nat2N.id in Hv. lia. }
   assert (Hbx : b2 cx c'x KD) by (right; auto).
   assert (SM4 : smid b s a g b2 s1' (upd a1 (S k3) []) g4).
   { eapply smid_trans; [exact SM2|]. unfold smid. split; [eapply xrun_trans; [exact R3|exact R4]|]. split; [apply bext_refl|].
@@ -1655,7 +2140,7 @@ Proof.
     split; [|split; [|split; [reflexivity|split; [reflexivity|]]]].
     - rewrite <- Hip5. eapply (xstep_next prog name code a5 g5 i_d _ (a_ip a5) a5); [reflexivity|rewrite Hip5; exact Hdel'|apply dec_delete2|].
       exact (exec_delete2 x endr a5 g5t F2 R c'x ce Ef5 Hxe HaxF2 HaeF2).
-    - apply (Cl_undeclare path prog cb CD base b5 B env5 s5 g5t x KD (assoc_set x cx sc0) l' F2 R vs (Cl_trc _ _ _ _ _ _ _ _ HC5) El5 Ef5 Hx HxBn).
+    - apply (Cl_undeclare path prog cb CD base name SF b5 B env5 s5 g5t x KD (assoc_set x cx sc0) l' F2 R vs (Cl_trc _ _ _ _ _ _ _ _ HC5) El5 Ef5 Hx HxBn).
       + intros y Hy Hne. assert (y <> endr) by (intros ->; exact (lregn_not_uname0 _ Hy)).
         unfold vs. now rewrite !assoc_del_other by assumption.
       + unfold vs. rewrite assoc_del_other by exact Hxe. now apply assoc_del_nd_none.
@@ -1674,7 +2159,7 @@ Proof.
             spost bL B rb fin envL sL aL gL (from_iter fuel incl hi None x false body n envL sL)).
   { induction n as [|n IH]; intros aL gL envL sL bL ElL HCL EfL HipL HcbL HssL HbxL HceL HcnL; [exact Logic.I|].
     rewrite from_iter_S. rewrite ElL. cbn [lL lookup_scopes]. rewrite assoc_set_same.
-    destruct (proj1 (cl_heap _ _ _ _ _ _ _ _ _ _ HCL) _ _ _ HbxL) as (vx & wx & Esx & Ecx & [Hfox ->]). rewrite Esx.
+    destruct (proj1 (cl_heap _ _ _ _ _ _ _ _ _ _ _ _ HCL) _ _ _ HbxL) as (vx & wx & Esx & Ecx & [Hfox ->]). rewrite Esx.
     destruct vx as [i|?|?| |? ? ?]; try exact Logic.I. cbn [inj] in Ecx.
     assert (FxL : find_in_function x (frames gL) = Some c'x) by (rewrite EfL; cbn [find_in_function]; now rewrite HaxF2).
     assert (FeL : find_in_function endr (frames gL) = Some ce) by (rewrite EfL; cbn [find_in_function]; now rewrite HaeF2).
@@ -1722,13 +2207,13 @@ Proof.
       assert (HbxB : bB cx c'x KD) by (exact (proj1 EB _ _ _ HbxL)).
       assert (Hlx2 : lookup_scopes x (locals env2) = Some cx).
       { destruct (locals env2) as [|sc2 l2] eqn:E2l; [congruence|]. cbn [tl] in Htl2. subst l2.
-        apply NS_lookup_tl; [rewrite <- E2l; exact (cl_ns _ _ _ _ _ _ _ _ _ _ HCB)|exact (proj2 (proj2 Hx))|].
+        apply NS_lookup_tl; [rewrite <- E2l; exact (cl_ns _ _ _ _ _ _ _ _ _ _ _ _ HCB)|exact (proj2 (proj2 Hx))|].
         cbn [lL lookup_scopes]. now rewrite assoc_set_same. }
       assert (Fx2 : find_in_function x (frames g2') = Some c'x).
-      { destruct (cl_B _ _ _ _ _ _ _ _ _ _ HCB x KD ltac:(eapply kblock_ext; [exact Eb|cbn [B2 assoc]; now rewrite str_eqb_refl]))
+      { destruct (cl_B _ _ _ _ _ _ _ _ _ _ _ _ HCB x KD ltac:(eapply kblock_ext; [exact Eb|cbn [B2 assoc]; now rewrite str_eqb_refl]))
           as (_ & c2 & c2' & A1 & A2 & A3). rewrite Hlx2 in A1. inversion A1; subst c2.
-        destruct (proj2 (cl_heap _ _ _ _ _ _ _ _ _ _ HCB) _ _ _ _ _ _ A3 HbxB) as [Hiff _]. assert (c2' = c'x) by (apply Hiff; reflexivity). congruence. }
-      destruct (proj1 (cl_heap _ _ _ _ _ _ _ _ _ _ HCB) _ _ _ HbxB) as (vx2 & wx2 & Esx2 & Ecx2 & [Hfox2 ->]). rewrite Esx2.
+        destruct (proj2 (cl_heap _ _ _ _ _ _ _ _ _ _ _ _ HCB) _ _ _ _ _ _ A3 HbxB) as [Hiff _]. assert (c2' = c'x) by (apply Hiff; reflexivity). congruence. }
+      destruct (proj1 (cl_heap _ _ _ _ _ _ _ _ _ _ _ _ HCB) _ _ _ HbxB) as (vx2 & wx2 & Esx2 & Ecx2 & [Hfox2 ->]). rewrite Esx2.
       destruct vx2 as [i'|?|?| |? ? ?]; try exact Logic.I. cbn [inj] in Ecx2.
       (* make_int 1 *)
       set (i_m := mkI OP_MAKE_INT [s_one]) in *.
@@ -1749,7 +2234,7 @@ Proof.
       assert (R0B : xrun prog name code aL gL a2' g2') by (eapply xrun_trans; [exact Rc|]; eapply xrun_trans; [exact Rp|exact RB]).
       destruct (i32_ok (i' + 1)%Z).
       2:{ cbn [spost fail_post]. exists (E_overflow OP_BIN_OP), gMt.
-          split; [|split; [left; reflexivity|exact (cl_out _ _ _ _ _ _ _ _ _ _ HCB)]].
+          split; [|split; [left; reflexivity|exact (cl_out _ _ _ _ _ _ _ _ _ _ _ _ HCB)]].
           eapply xrun_fail; [exact R0B|]. eapply xrun_fail; [exact RM|].
           eapply xstep_fail; [exact HipM|exact Hs2'|apply dec_bin_op_assign|exact Hxa]. }
       set (sS := sset s2 cx (RInt (i' + 1)%Z)).
@@ -1759,13 +2244,13 @@ Proof.
       assert (RS : xrun prog name code aM gM aS gS).
       { eapply (xstep_next prog name code aM gM i_a _ (a_ip aM) (set_ops aM [VInt (i' + 1)%Z])); [reflexivity|rewrite HipM; exact Hs2'|apply dec_bin_op_assign|exact Hxa]. }
       assert (HCS : ClA bB B1 env2 sS gS).
-      { apply (Cl_update path prog cb CD base bB B1 env2 s2 gMt cx c'x KD (RInt (i' + 1)%Z) (VInt (i' + 1)%Z)); [do 2 apply Cl_trc; exact HCB|exact HbxB|].
+      { apply (Cl_update path prog cb CD base name SF bB B1 env2 s2 gMt cx c'x KD (RInt (i' + 1)%Z) (VInt (i' + 1)%Z)); [do 2 apply Cl_trc; exact HCB|exact HbxB|].
         split; [exact Logic.I|reflexivity]. }
       set (ij := mkI OP_JMP_POP [neg_off (lbd + 6)]) in *.
       set (gN := with_frames (trc name aS gS ij) (tl (frames gS))).
       assert (RN : xrun prog name code aS gS (set_ip aS kc) gN).
       { apply (back_edge2 kj (lbd + 6) kc aS gS Hj'); [unfold fin, kd, kj, kpp, ks, kb, kw in *; lia|unfold fin, kd in *; lia|
-          unfold kj, kpp, ks, kb, kw; lia|exact HipS|exact (proj2 (Rfr2_ne _ _ _ (cl_fr _ _ _ _ _ _ _ _ _ _ HCS)))]. }
+          unfold kj, kpp, ks, kb, kw; lia|exact HipS|exact (proj2 (Rfr2_ne _ _ _ (cl_fr _ _ _ _ _ _ _ _ _ _ _ _ HCS)))]. }
       assert (HCN : ClA bB B2 (pop_scope env2) sS gN).
       { unfold gN. change (tl (frames gS)) with (tl (frames (trc name aS gS ij))).
         eapply (Cl_pop_block bB B2 B1 rb body envL env2 sS (trc name aS gS ij)); [apply Cl_trc; exact HCS|rewrite ElL; exact Htl2|
@@ -1825,7 +2310,7 @@ Proof.
   - intros e sp _ b B lr k0 fuel kp a g env s B' rets Hfu Hk. discriminate.
   - intros e _. apply expr_sim.
   - intros cnd body _ Hb. apply if_sim. apply bspec_of. exact Hb.
-  - intros cnd body els _ _ _ b B lr k0 fuel kp a g env s B' rets Hfu Hk. discriminate.
+  - intros cnd body els _ Hb He. apply ifelse_sim; apply bspec_of; assumption.
   - intros cnd body n _ _ _ b B lr k0 fuel kp a g env s B' rets Hfu Hk. discriminate.
   - intros cnd body _ Hb. apply while_sim. apply bspec_of. exact Hb.
   - intros a0 b0 incl step nm collide body _ _ _ Hbody.
